@@ -1539,4 +1539,2057 @@ theorem denoteStmt_strand (pfx : String) (env : Env) (o : Out) (dummy : Bool) (n
       · simp only [hz, Bool.false_eq_true, if_false]
         rfl
 
+def lookupStrand (env : Env) (n : String) : Except Denote.Err (List Nuc × List (List Nuc)) :=
+  match env.strands.lookup n with
+  | some x => pure x
+  | none => throw .undefined
+
+def lookupStrands (env : Env) (l : List String) : Except Denote.Err (List (List Nuc × List (List Nuc))) :=
+  l.mapM (lookupStrand env)
+
+theorem lookupStrands_canon (env : Env) (l : List String)
+    (f : String → Except Denote.Err (List Nuc × List (List Nuc)))
+    (h : ∀ n, f n = lookupStrand env n) : List.mapM f l = lookupStrands env l := by
+  unfold lookupStrands; rw [funext h]
+
+/-- what a non-domain-level structure statement adds, given the strands it names -/
+def structOut (pfx : String) (o : Out) (opt : OptSrc) (name : String) (strands : List String) (text : List Char)
+    (objs : List (List Nuc × List (List Nuc))) : Except Denote.Err Out :=
+  match Notation.compileStruct text with
+  | none => .error .notation
+  | some dp =>
+    if !Notation.sizesOk dp (objs.map (fun x => x.1.length)) then .error .length
+    else match optOf opt with
+      | .error e => .error e
+      | .ok ov => .ok { o with structs := o.structs ++ [⟨pfx ++ name, strands.map (pfx ++ ·), dp, ov⟩] }
+
+theorem denoteStmt_struct_plain (pfx : String) (env : Env) (o : Out) (opt : OptSrc) (name : String)
+    (strands : List String) (text : List Char) :
+    denoteStmt pfx env o (.struct opt name strands false text) =
+      if o.structs.any (·.name == pfx ++ name) then .error .duplicate else
+      match lookupStrands env strands with
+      | .error e => .error e
+      | .ok objs =>
+        match structOut pfx o opt name strands text objs with
+        | .error e => .error e
+        | .ok o' => .ok (env, o') := by
+  rw [denoteStmt]
+  simp (disch := (intro n; unfold lookupStrand; cases List.lookup n env.strands <;> rfl)) only
+    [lookupStrands_canon env]
+  by_cases hd : (o.structs.any fun x => x.name == pfx ++ name) = true
+  · simp [hd, throw, throwThe, MonadExceptOf.throw, bind, Except.bind]
+  · simp only [hd, Bool.false_eq_true, if_false, bind, Except.bind]
+    cases lookupStrands env strands with
+    | error e => rfl
+    | ok objs =>
+      simp only [structOut]
+      cases Notation.compileStruct text with
+      | none => rfl
+      | some dp =>
+        simp only [pure, Except.pure]
+        by_cases hs : Notation.sizesOk dp (objs.map (fun x => x.1.length)) = true
+        · simp only [hs, Bool.not_true, Bool.false_eq_true, if_false]
+          cases optOf opt <;> rfl
+        · simp [hs, throw, throwThe, MonadExceptOf.throw]
+
+theorem denoteStmt_kinetic (pfx : String) (env : Env) (o : Out) (lo hi : Option String) (ins outs : List String) :
+    denoteStmt pfx env o (.kinetic lo hi ins outs) =
+      if !(ins ++ outs).all (fun n => o.structs.any (·.name == pfx ++ n)) then .error .undefined else
+      match kinOf pfx lo hi ins outs with
+      | .error e => .error e
+      | .ok k => .ok (env, { o with kinetics := o.kinetics ++ [k] }) := by
+  rw [denoteStmt]
+  split
+  · simp [throw, throwThe, MonadExceptOf.throw, bind, Except.bind]
+  · simp only [bind, Except.bind]
+    cases kinOf pfx lo hi ins outs <;> rfl
+
+/-! ### simulation: two related environments run the same statements -/
+
+def ExRel {ε α β} (R : α → β → Prop) : Except ε α → Except ε β → Prop
+  | .error a, .error b => a = b
+  | .ok a, .ok b => R a b
+  | _, _ => False
+
+/-- rename the domains an `Out` mentions: names of `domains`, names and nucleotides of atomic and
+    super-sequences, nucleotides of strands (strand, structure names are in other name spaces) -/
+def rnOut (ρ : String → String) (o : Out) : Out :=
+  { domains := o.domains.map (fun d => (ρ d.1, d.2)),
+    baseSeqs := o.baseSeqs.map (fun d => (ρ d.1, rnSeg ρ d.2)),
+    supSeqs := o.supSeqs.map (fun d => (ρ d.1, rnSeg ρ d.2)),
+    strands := o.strands.map (fun s => (s.1, s.2.1, rnSeg ρ s.2.2)),
+    structs := o.structs, kinetics := o.kinetics }
+
+def StrandsRel (ρ : String → String) (l l' : List (String × List Nuc × List (List Nuc))) : Prop :=
+  ∀ x, match l.lookup x, l'.lookup x with
+    | none, none => True
+    | some t, some t' => t'.1 = rnSeg ρ t.1
+    | _, _ => False
+
+structure EnvRel (ρ : String → String) (k : Nat) (e e' : Env) : Prop where
+  anon : e'.anon = e.anon + k
+  seqs : SeqsRel ρ e.seqs e'.seqs
+  strands : StrandsRel ρ e.strands e'.strands
+
+def StRel (ρ : String → String) (k : Nat) (p q : Env × Out) : Prop := EnvRel ρ k p.1 q.1 ∧ q.2 = rnOut ρ p.2
+
+/-- what the simulation needs of a statement: `ρ` fixes the full name of a sequence it defines; a structure
+    is not domain-level (a domain-level structure counts the segments of its strands) -/
+def stmtOk (ρ : String → String) (pfx : String) : Stmt → Prop
+  | .seq name _ _ => ρ (pfx ++ name) = pfx ++ name
+  | .struct _ _ _ domain _ => domain = false
+  | _ => True
+
+theorem SeqsRel.isSome {ρ : String → String} {l l' : List (String × Denote.Bind)} (h : SeqsRel ρ l l') (x : String) :
+    (l'.lookup x).isSome = (l.lookup x).isSome := by
+  have := h x
+  cases h1 : l.lookup x <;> cases h2 : l'.lookup x <;> simp_all
+
+theorem StrandsRel.isSome {ρ : String → String} {l l' : List (String × List Nuc × List (List Nuc))}
+    (h : StrandsRel ρ l l') (x : String) : (l'.lookup x).isSome = (l.lookup x).isSome := by
+  have := h x
+  cases h1 : l.lookup x <;> cases h2 : l'.lookup x <;> simp_all
+
+theorem SeqsRel.snoc {ρ : String → String} {l l' : List (String × Denote.Bind)} (h : SeqsRel ρ l l')
+    (name : String) {b b' : Denote.Bind} (hb : BindRel ρ b b') : SeqsRel ρ (l ++ [(name, b)]) (l' ++ [(name, b')]) := by
+  intro x
+  have := h x
+  simp only [List.lookup_append]
+  cases h1 : l.lookup x <;> cases h2 : l'.lookup x <;> simp_all
+  simp only [List.lookup]
+  cases x == name <;> simp [hb]
+
+theorem StrandsRel.snoc {ρ : String → String} {l l' : List (String × List Nuc × List (List Nuc))}
+    (h : StrandsRel ρ l l') (name : String) {t t' : List Nuc × List (List Nuc)} (hb : t'.1 = rnSeg ρ t.1) :
+    StrandsRel ρ (l ++ [(name, t)]) (l' ++ [(name, t')]) := by
+  intro x
+  have := h x
+  simp only [List.lookup_append]
+  cases h1 : l.lookup x <;> cases h2 : l'.lookup x <;> simp_all
+  simp only [List.lookup]
+  cases x == name <;> simp [hb]
+
+theorem RenumP.mono {ρ : String → String} {pfx : String} {n0 n k : Nat} (h : RenumP ρ pfx n0 k) (hn : n0 ≤ n) :
+    RenumP ρ pfx n k := fun m hm => h m (Nat.le_trans hn hm)
+
+theorem rnOut_withNewDomains (ρ : String → String) (o : Out) (doms : List (String × List Char)) :
+    withNewDomains (rnOut ρ o) (doms.map (fun d => (ρ d.1, d.2))) = rnOut ρ (withNewDomains o doms) := by
+  simp [withNewDomains, rnOut, List.filter_map, Function.comp_def, rnSeg_fwd]
+
+/-- the two regions, case by case -/
+theorem region_cases (pfx : String) {ρ : String → String} {n0 k : Nat} (hr : RenumP ρ pfx n0 k) {e e' : Env}
+    (he : EnvRel ρ k e e') (hn : n0 ≤ e.anon) (items : List SrcItem) (len : Option Nat) :
+    ExRel (fun r r' => r'.1.flatten = rnSeg ρ r.1.flatten ∧ r'.2.1 = r.2.1.map (fun d => (ρ d.1, d.2)) ∧
+                       r'.2.2 = r.2.2 + k)
+      (denoteRegion pfx e items len) (denoteRegion pfx e' items len) := by
+  have h := denoteRegion_rel pfx e e' (hr.mono hn) he.seqs he.anon items len
+  cases h1 : denoteRegion pfx e items len with
+  | error err =>
+    rw [h1] at h
+    rw [map_eq_error h]
+    rfl
+  | ok r =>
+    rw [h1] at h
+    obtain ⟨r', hr', hf⟩ := map_eq_ok h
+    rw [hr']
+    simp only [flat3, rn3, Prod.mk.injEq] at hf
+    exact hf
+
+theorem lookupStrands_rel {ρ : String → String}
+    (e e' : Env) (h : StrandsRel ρ e.strands e'.strands) (strands : List String) :
+    ExRel (fun objs objs' => objs'.map (fun x => x.1.length) = objs.map (fun x => x.1.length))
+      (lookupStrands e strands) (lookupStrands e' strands) := by
+  unfold lookupStrands
+  induction strands with
+  | nil => simp [List.mapM_nil, ExRel, pure, Except.pure]
+  | cons x r ih =>
+    simp only [List.mapM_cons, lookupStrand]
+    have hx := h x
+    cases h1 : e.strands.lookup x with
+    | none =>
+      cases h2 : e'.strands.lookup x with
+      | none => simp [ExRel, throw, throwThe, MonadExceptOf.throw, bind, Except.bind]
+      | some t' => simp [h1, h2] at hx
+    | some t =>
+      cases h2 : e'.strands.lookup x with
+      | none => simp [h1, h2] at hx
+      | some t' =>
+        simp only [h1, h2] at hx
+        simp only [pure, Except.pure, bind, Except.bind]
+        cases h3 : List.mapM (lookupStrand e) r with
+        | error err =>
+          rw [h3] at ih
+          cases h4 : List.mapM (lookupStrand e') r with
+          | error err' => rw [h4] at ih; simpa [ExRel] using ih
+          | ok v => rw [h4] at ih; simp [ExRel] at ih
+        | ok v =>
+          rw [h3] at ih
+          cases h4 : List.mapM (lookupStrand e') r with
+          | error err' => rw [h4] at ih; simp [ExRel] at ih
+          | ok v' =>
+            rw [h4] at ih
+            simp only [ExRel] at ih ⊢
+            simp [ih, hx, rnSeg]
+
+theorem rnSeg_isEmpty (ρ : String → String) (s : List Nuc) : (rnSeg ρ s).isEmpty = s.isEmpty := by
+  cases s <;> rfl
+
+theorem rnSeg_length (ρ : String → String) (s : List Nuc) : (rnSeg ρ s).length = s.length := by
+  simp [rnSeg]
+
+/-- one statement in two related environments (`k`: shift of the anonymous counter, `ρ`: renaming) -/
+theorem denoteStmt_rel (pfx : String) {ρ : String → String} {n0 k : Nat} (hr : RenumP ρ pfx n0 k) {e e' : Env}
+    (o : Out) (he : EnvRel ρ k e e') (hn : n0 ≤ e.anon) (st : Stmt) (hst : stmtOk ρ pfx st) :
+    ExRel (StRel ρ k) (denoteStmt pfx e o st) (denoteStmt pfx e' (rnOut ρ o) st) := by
+  cases st with
+  | seq name items len =>
+    have hfix : ρ (pfx ++ name) = pfx ++ name := hst
+    by_cases hat : ∃ t, items = [.nuc t]
+    · obtain ⟨text, rfl⟩ := hat
+      rw [denoteStmt_atom, denoteStmt_atom, he.seqs.isSome]
+      by_cases hd : (e.seqs.lookup name).isSome = true
+      · simp [hd, ExRel]
+      · simp only [hd, Bool.false_eq_true, if_false]
+        cases resolve (parseQuoted text) len with
+        | error err => simp [ExRel]
+        | ok r =>
+          obtain ⟨l, c⟩ := r
+          simp only [ExRel, StRel, atomResult]
+          refine ⟨⟨he.anon, he.seqs.snoc name ⟨?_, rfl, ?_⟩, he.strands⟩, ?_⟩
+          · rw [rnSeg_fwd, hfix]
+          · simp [rnSeg_fwd, hfix]
+          · cases l == 0
+            · simp [rnOut, hfix, rnSeg_fwd]
+            · rfl
+    · have hat' : ∀ t, items ≠ [.nuc t] := fun t h => hat ⟨t, h⟩
+      rw [denoteStmt_seq _ _ _ _ _ _ hat', denoteStmt_seq _ _ _ _ _ _ hat', he.seqs.isSome]
+      by_cases hd : (e.seqs.lookup name).isSome = true
+      · simp [hd, ExRel]
+      · simp only [hd, Bool.false_eq_true, if_false]
+        have hreg := region_cases pfx hr he hn items len
+        cases h1 : denoteRegion pfx e items len with
+        | error err =>
+          rw [h1] at hreg
+          cases h2 : denoteRegion pfx e' items len with
+          | error err' => rw [h2] at hreg; simpa [ExRel] using hreg
+          | ok r' => rw [h2] at hreg; simp [ExRel] at hreg
+        | ok r =>
+          rw [h1] at hreg
+          cases h2 : denoteRegion pfx e' items len with
+          | error err' => rw [h2] at hreg; simp [ExRel] at hreg
+          | ok r' =>
+            rw [h2] at hreg
+            simp only [ExRel] at hreg
+            obtain ⟨hf, hdm, han⟩ := hreg
+            simp only [ExRel, StRel, seqResult]
+            refine ⟨⟨han, he.seqs.snoc name ⟨hf, rfl, hf⟩, he.strands⟩, ?_⟩
+            rw [hf, hdm, rnSeg_isEmpty, rnOut_withNewDomains]
+            cases r.1.flatten.isEmpty
+            · simp [rnOut, hfix]
+            · rfl
+  | strand dummy name items len =>
+    rw [denoteStmt_strand, denoteStmt_strand, he.strands.isSome]
+    by_cases hd : (e.strands.lookup name).isSome = true
+    · simp [hd, ExRel]
+    · simp only [hd, Bool.false_eq_true, if_false]
+      have hreg := region_cases pfx hr he hn items len
+      cases h1 : denoteRegion pfx e items len with
+      | error err =>
+        rw [h1] at hreg
+        cases h2 : denoteRegion pfx e' items len with
+        | error err' => rw [h2] at hreg; simpa [ExRel] using hreg
+        | ok r' => rw [h2] at hreg; simp [ExRel] at hreg
+      | ok r =>
+        rw [h1] at hreg
+        cases h2 : denoteRegion pfx e' items len with
+        | error err' => rw [h2] at hreg; simp [ExRel] at hreg
+        | ok r' =>
+          rw [h2] at hreg
+          simp only [ExRel] at hreg
+          obtain ⟨hf, hdm, han⟩ := hreg
+          dsimp only
+          rw [hf, rnSeg_isEmpty]
+          cases hz : r.1.flatten.isEmpty
+          · simp only [Bool.false_eq_true, if_false, ExRel, StRel, strandResult]
+            refine ⟨⟨han, he.seqs, he.strands.snoc name hf⟩, ?_⟩
+            rw [hdm, rnOut_withNewDomains, hf]
+            simp [rnOut]
+          · simp [ExRel]
+  | struct opt name strands domain text =>
+    have hdom : domain = false := hst
+    subst hdom
+    rw [denoteStmt_struct_plain, denoteStmt_struct_plain]
+    have ho : (rnOut ρ o).structs = o.structs := rfl
+    rw [ho]
+    by_cases hd : (o.structs.any fun x => x.name == pfx ++ name) = true
+    · simp [hd, ExRel]
+    · simp only [hd, Bool.false_eq_true, if_false]
+      have hl := lookupStrands_rel e e' he.strands strands
+      cases h1 : lookupStrands e strands with
+      | error err =>
+        rw [h1] at hl
+        cases h2 : lookupStrands e' strands with
+        | error err' => rw [h2] at hl; simpa [ExRel] using hl
+        | ok r' => rw [h2] at hl; simp [ExRel] at hl
+      | ok objs =>
+        rw [h1] at hl
+        cases h2 : lookupStrands e' strands with
+        | error err' => rw [h2] at hl; simp [ExRel] at hl
+        | ok objs' =>
+          rw [h2] at hl
+          simp only [ExRel] at hl
+          simp only [structOut, hl, ho]
+          cases Notation.compileStruct text with
+          | none => simp [ExRel]
+          | some dp =>
+            dsimp only
+            by_cases hz : Notation.sizesOk dp (objs.map (fun x => x.1.length)) = true
+            · simp only [hz, Bool.not_true, Bool.false_eq_true, if_false]
+              cases optOf opt with
+              | error err => simp [ExRel]
+              | ok ov => exact ⟨he, rfl⟩
+            · simp [hz, ExRel]
+  | kinetic lo hi ins outs =>
+    rw [denoteStmt_kinetic, denoteStmt_kinetic]
+    have ho : (rnOut ρ o).structs = o.structs := rfl
+    rw [ho]
+    split
+    · simp [ExRel]
+    · cases kinOf pfx lo hi ins outs with
+      | error err => simp [ExRel]
+      | ok kd => exact ⟨he, rfl⟩
+
+theorem finishB_counter {pfx : String} {bs : List Blk} {n : Nat} {length : Option Nat}
+    {r : List (List Nuc) × List (String × List Char) × Nat} (h : finishB pfx bs n length = .ok r) : n ≤ r.2.2 := by
+  unfold finishB at h
+  split at h
+  · split at h
+    · split at h
+      · cases h
+      · injection h with h; subst h; exact Nat.le_refl _
+    · injection h with h; subst h; exact Nat.le_refl _
+  · split at h
+    · cases h
+    · split at h
+      · cases h
+      · split at h
+        · cases h
+        · injection h with h; subst h; exact Nat.le_succ _
+
+theorem denoteRegion_anon_le {pfx : String} {env : Env} {items : List SrcItem} {length : Option Nat}
+    {r : List (List Nuc) × List (String × List Char) × Nat} (h : denoteRegion pfx env items length = .ok r) :
+    env.anon ≤ r.2.2 := by
+  rw [denoteRegion_eq_blocks] at h
+  cases hb : blocks pfx env items env.anon false with
+  | error e => simp [hb] at h
+  | ok p =>
+    simp only [hb] at h
+    exact Nat.le_trans (blocks_counter_le pfx env items env.anon false hb) (finishB_counter h)
+
+theorem denoteStmt_anon_le {pfx : String} {ρ : String → String} {e e1 : Env} {o o1 : Out} {st : Stmt}
+    (hst : stmtOk ρ pfx st) (h : denoteStmt pfx e o st = .ok (e1, o1)) : e.anon ≤ e1.anon := by
+  cases st with
+  | seq name items len =>
+    by_cases hat : ∃ t, items = [.nuc t]
+    · obtain ⟨text, rfl⟩ := hat
+      rw [denoteStmt_atom] at h
+      split at h
+      · cases h
+      · split at h
+        · cases h
+        · injection h with h
+          simp only [atomResult, Prod.mk.injEq] at h
+          rw [← h.1]
+          exact Nat.le_refl _
+    · have hat' : ∀ t, items ≠ [.nuc t] := fun t h => hat ⟨t, h⟩
+      rw [denoteStmt_seq _ _ _ _ _ _ hat'] at h
+      split at h
+      · cases h
+      · cases hr : denoteRegion pfx e items len with
+        | error err => simp [hr] at h
+        | ok r =>
+          simp only [hr, Except.ok.injEq, seqResult, Prod.mk.injEq] at h
+          rw [← h.1]
+          exact denoteRegion_anon_le hr
+  | strand dummy name items len =>
+    rw [denoteStmt_strand] at h
+    split at h
+    · cases h
+    · cases hr : denoteRegion pfx e items len with
+      | error err => simp [hr] at h
+      | ok r =>
+        simp only [hr] at h
+        split at h
+        · cases h
+        · simp only [Except.ok.injEq, strandResult, Prod.mk.injEq] at h
+          rw [← h.1]
+          exact denoteRegion_anon_le hr
+  | struct opt name strands domain text =>
+    have hdom : domain = false := hst
+    subst hdom
+    rw [denoteStmt_struct_plain] at h
+    split at h
+    · cases h
+    · split at h
+      · cases h
+      · split at h
+        · cases h
+        · injection h with h
+          injection h with h _
+          rw [h]
+          exact Nat.le_refl _
+  | kinetic lo hi ins outs =>
+    rw [denoteStmt_kinetic] at h
+    split at h
+    · cases h
+    · split at h
+      · cases h
+      · injection h with h
+        injection h with h _
+        rw [h]
+        exact Nat.le_refl _
+
+/-- a statement list in two related environments -/
+theorem denoteStmts_rel (pfx : String) {ρ : String → String} {n0 k : Nat} (hr : RenumP ρ pfx n0 k) :
+    ∀ (stmts : List Stmt) {e e' : Env} (o : Out), EnvRel ρ k e e' → n0 ≤ e.anon → (∀ st ∈ stmts, stmtOk ρ pfx st) →
+      ExRel (StRel ρ k) (denoteStmts pfx stmts e o) (denoteStmts pfx stmts e' (rnOut ρ o))
+  | [], e, e', o, he, _, _ => by
+    simp only [denoteStmts, ExRel]
+    exact ⟨he, rfl⟩
+  | st :: r, e, e', o, he, hn, hok => by
+    have h1 := denoteStmt_rel pfx hr o he hn st (hok st List.mem_cons_self)
+    simp only [denoteStmts]
+    cases hs : denoteStmt pfx e o st with
+    | error err =>
+      rw [hs] at h1
+      cases hs' : denoteStmt pfx e' (rnOut ρ o) st with
+      | error err' => rw [hs'] at h1; simpa [ExRel] using h1
+      | ok x => rw [hs'] at h1; simp [ExRel] at h1
+    | ok p =>
+      rw [hs] at h1
+      cases hs' : denoteStmt pfx e' (rnOut ρ o) st with
+      | error err' => rw [hs'] at h1; simp [ExRel] at h1
+      | ok q =>
+        rw [hs'] at h1
+        obtain ⟨e1, o1⟩ := p
+        obtain ⟨e1', o1'⟩ := q
+        simp only [ExRel, StRel] at h1
+        obtain ⟨he1, ho1⟩ := h1
+        subst ho1
+        exact denoteStmts_rel pfx hr r o1 he1
+          (Nat.le_trans hn (denoteStmt_anon_le (hok st List.mem_cons_self) hs))
+          (fun s hs => hok s (List.mem_cons_of_mem _ hs))
+
+theorem denoteStmts_append (pfx : String) : ∀ (xs ys : List Stmt) (e : Env) (o : Out),
+    denoteStmts pfx (xs ++ ys) e o =
+      match denoteStmts pfx xs e o with
+      | .error err => .error err
+      | .ok p => denoteStmts pfx ys p.1 p.2
+  | [], ys, e, o => rfl
+  | x :: r, ys, e, o => by
+    simp only [List.cons_append, denoteStmts]
+    cases denoteStmt pfx e o x with
+    | error err => rfl
+    | ok p => exact denoteStmts_append pfx r ys p.1 p.2
+
+/-! ### components -/
+
+def portOf (pfx : String) (env : Env) (o : Out) (p : Comp.Port) : Except Denote.Err (List Nuc × Bool) :=
+  match env.seqs.lookup p.seq with
+  | none => throw Denote.Err.undefined
+  | some b =>
+    match p.struct with
+    | some sn => if o.structs.any (·.name == pfx ++ sn) then pure (b.nucs, p.star) else throw Denote.Err.undefined
+    | none => pure (b.nucs, p.star)
+
+def portsOf (pfx : String) (env : Env) (o : Out) (ps : List Comp.Port) : Except Denote.Err (List (List Nuc × Bool)) :=
+  ps.mapM (portOf pfx env o)
+
+theorem portsOf_canon (pfx : String) (env : Env) (o : Out) (ps : List Comp.Port)
+    (f : Comp.Port → Except Denote.Err (List Nuc × Bool)) (h : ∀ p, f p = portOf pfx env o p) :
+    List.mapM f ps = portsOf pfx env o ps := by
+  unfold portsOf; rw [funext h]
+
+theorem denoteComp_eq (src : Src) (pfx : String) (a : Nat) :
+    denoteComp src pfx a =
+      match denoteStmts pfx src.stmts { anon := a } {} with
+      | .error e => .error e
+      | .ok p =>
+        match portsOf pfx p.1 p.2 (src.inputs ++ src.outputs) with
+        | .error e => .error e
+        | .ok ports => .ok (p.2, ports, p.1.anon) := by
+  unfold denoteComp
+  simp only [bind, Except.bind]
+  cases denoteStmts pfx src.stmts { anon := a } {} with
+  | error e => rfl
+  | ok p =>
+    obtain ⟨env, o⟩ := p
+    dsimp only
+    simp (disch := (intro p; unfold portOf; cases List.lookup p.seq env.seqs <;> (try rfl); cases p.struct <;> rfl)) only
+      [portsOf_canon pfx env o]
+    cases portsOf pfx env o (src.inputs ++ src.outputs) <;> rfl
+
+/-- results of two component denotations related by a renaming and a counter shift -/
+def CompRel (ρ : String → String) (k : Nat) (r r' : Out × List (List Nuc × Bool) × Nat) : Prop :=
+  r'.1 = rnOut ρ r.1 ∧ r'.2.1 = r.2.1.map (fun x => (rnSeg ρ x.1, x.2)) ∧ r'.2.2 = r.2.2 + k
+
+theorem portsOf_rel (pfx : String) {ρ : String → String} {k : Nat} {e e' : Env} (o : Out) (he : EnvRel ρ k e e')
+    (ps : List Comp.Port) :
+    ExRel (fun l l' => l' = l.map (fun x => (rnSeg ρ x.1, x.2))) (portsOf pfx e o ps) (portsOf pfx e' (rnOut ρ o) ps) := by
+  unfold portsOf
+  induction ps with
+  | nil => simp [List.mapM_nil, ExRel, pure, Except.pure]
+  | cons p r ih =>
+    simp only [List.mapM_cons]
+    have hp : ExRel (fun x x' => x' = (rnSeg ρ x.1, x.2)) (portOf pfx e o p) (portOf pfx e' (rnOut ρ o) p) := by
+      unfold portOf
+      have hx := he.seqs p.seq
+      have ho : (rnOut ρ o).structs = o.structs := rfl
+      rw [ho]
+      cases h1 : e.seqs.lookup p.seq with
+      | none =>
+        cases h2 : e'.seqs.lookup p.seq with
+        | none => simp [ExRel, throw, throwThe, MonadExceptOf.throw]
+        | some b' => simp [h1, h2] at hx
+      | some b =>
+        cases h2 : e'.seqs.lookup p.seq with
+        | none => simp [h1, h2] at hx
+        | some b' =>
+          simp only [h1, h2] at hx
+          dsimp only
+          cases p.struct with
+          | none => simp [ExRel, pure, Except.pure, hx.1]
+          | some sn =>
+            dsimp only
+            split
+            · simp [ExRel, pure, Except.pure, hx.1]
+            · simp [ExRel, throw, throwThe, MonadExceptOf.throw]
+    cases h1 : portOf pfx e o p with
+    | error err =>
+      rw [h1] at hp
+      cases h2 : portOf pfx e' (rnOut ρ o) p with
+      | error err' => rw [h2] at hp; simpa [ExRel, bind, Except.bind] using hp
+      | ok x => rw [h2] at hp; simp [ExRel] at hp
+    | ok x =>
+      rw [h1] at hp
+      cases h2 : portOf pfx e' (rnOut ρ o) p with
+      | error err' => rw [h2] at hp; simp [ExRel] at hp
+      | ok x' =>
+        rw [h2] at hp
+        simp only [ExRel] at hp
+        simp only [bind, Except.bind, pure, Except.pure]
+        cases h3 : List.mapM (portOf pfx e o) r with
+        | error err =>
+          rw [h3] at ih
+          cases h4 : List.mapM (portOf pfx e' (rnOut ρ o)) r with
+          | error err' => rw [h4] at ih; simpa [ExRel] using ih
+          | ok v => rw [h4] at ih; simp [ExRel] at ih
+        | ok v =>
+          rw [h3] at ih
+          cases h4 : List.mapM (portOf pfx e' (rnOut ρ o)) r with
+          | error err' => rw [h4] at ih; simp [ExRel] at ih
+          | ok v' =>
+            rw [h4] at ih
+            simp only [ExRel] at ih ⊢
+            simp [ih, hp]
+
+/-- replace one statement of a component: if the replaced statement simulates the original one in every
+    environment the earlier statements can produce, and the later statements are `stmtOk`, the two
+    components denote related results -/
+theorem comp_rel (pfx : String) {ρ : String → String} {n0 k : Nat} (hr : RenumP ρ pfx n0 k) (src src' : Src)
+    (pre post : List Stmt) (st st' : Stmt) (a : Nat)
+    (h1 : src.stmts = pre ++ st :: post) (h2 : src'.stmts = pre ++ st' :: post)
+    (hin : src'.inputs = src.inputs) (hout : src'.outputs = src.outputs)
+    (hpost : ∀ s ∈ post, stmtOk ρ pfx s)
+    (hst : ∀ env o, denoteStmts pfx pre { anon := a } {} = .ok (env, o) →
+      ExRel (fun p q => StRel ρ k p q ∧ n0 ≤ p.1.anon) (denoteStmt pfx env o st) (denoteStmt pfx env o st')) :
+    ExRel (CompRel ρ k) (denoteComp src pfx a) (denoteComp src' pfx a) := by
+  rw [denoteComp_eq, denoteComp_eq, h1, h2, hin, hout, denoteStmts_append, denoteStmts_append]
+  cases hp : denoteStmts pfx pre { anon := a } {} with
+  | error err => simp [ExRel]
+  | ok p =>
+    obtain ⟨env, o⟩ := p
+    have hs := hst env o hp
+    simp only [denoteStmts]
+    cases hs1 : denoteStmt pfx env o st with
+    | error err =>
+      rw [hs1] at hs
+      cases hs2 : denoteStmt pfx env o st' with
+      | error err' => rw [hs2] at hs; simpa [ExRel] using hs
+      | ok x => rw [hs2] at hs; simp [ExRel] at hs
+    | ok x =>
+      rw [hs1] at hs
+      cases hs2 : denoteStmt pfx env o st' with
+      | error err' => rw [hs2] at hs; simp [ExRel] at hs
+      | ok x' =>
+        rw [hs2] at hs
+        obtain ⟨e1, o1⟩ := x
+        obtain ⟨e1', o1'⟩ := x'
+        simp only [ExRel, StRel] at hs
+        obtain ⟨⟨he1, ho1⟩, hn1⟩ := hs
+        subst ho1
+        dsimp only
+        have hrest := denoteStmts_rel pfx hr post o1 he1 hn1 hpost
+        cases hr1 : denoteStmts pfx post e1 o1 with
+        | error err =>
+          rw [hr1] at hrest
+          cases hr2 : denoteStmts pfx post e1' (rnOut ρ o1) with
+          | error err' => rw [hr2] at hrest; simpa [ExRel] using hrest
+          | ok y => rw [hr2] at hrest; simp [ExRel] at hrest
+        | ok y =>
+          rw [hr1] at hrest
+          cases hr2 : denoteStmts pfx post e1' (rnOut ρ o1) with
+          | error err' => rw [hr2] at hrest; simp [ExRel] at hrest
+          | ok y' =>
+            rw [hr2] at hrest
+            obtain ⟨e2, o2⟩ := y
+            obtain ⟨e2', o2'⟩ := y'
+            simp only [ExRel, StRel] at hrest
+            obtain ⟨he2, ho2⟩ := hrest
+            subst ho2
+            dsimp only
+            have hports := portsOf_rel pfx o2 he2 (src.inputs ++ src.outputs)
+            cases hq1 : portsOf pfx e2 o2 (src.inputs ++ src.outputs) with
+            | error err =>
+              rw [hq1] at hports
+              cases hq2 : portsOf pfx e2' (rnOut ρ o2) (src.inputs ++ src.outputs) with
+              | error err' => rw [hq2] at hports; simpa [ExRel] using hports
+              | ok z => rw [hq2] at hports; simp [ExRel] at hports
+            | ok z =>
+              rw [hq1] at hports
+              cases hq2 : portsOf pfx e2' (rnOut ρ o2) (src.inputs ++ src.outputs) with
+              | error err' => rw [hq2] at hports; simp [ExRel] at hports
+              | ok z' =>
+                rw [hq2] at hports
+                simp only [ExRel] at hports
+                simp only [ExRel, CompRel]
+                exact ⟨trivial, hports, he2.anon⟩
+
+/-! ### one insertion into one statement -/
+
+def insItems (items : List SrcItem) (i : Nat) (it : SrcItem) : List SrcItem := items.take i ++ [it] ++ items.drop i
+
+/-- `st'` is the super-sequence or strand statement `st` with the item `it` inserted at position `i` of its item
+    list (for a `sequence` statement neither item list may be a single quoted region: that is the notation
+    for an *atomic* sequence, a different kind of object) -/
+inductive InsStmt (i : Nat) (it : SrcItem) : Stmt → Stmt → Prop
+  | seq (name : String) (items : List SrcItem) (len : Option Nat) :
+      (∀ t, items ≠ [.nuc t]) → (∀ t, insItems items i it ≠ [.nuc t]) →
+      InsStmt i it (.seq name items len) (.seq name (insItems items i it) len)
+  | strand (d : Bool) (name : String) (items : List SrcItem) (len : Option Nat) :
+      InsStmt i it (.strand d name items len) (.strand d name (insItems items i it) len)
+
+/-- `src'` is `src` with the item `it` inserted at position `i` of the item list of statement number `t` -/
+structure InsertZero (src src' : Src) (t i : Nat) (it : SrcItem) : Prop where
+  inputs : src'.inputs = src.inputs
+  outputs : src'.outputs = src.outputs
+  stmts : ∃ pre st st' post, src.stmts = pre ++ st :: post ∧ src'.stmts = pre ++ st' :: post ∧
+            pre.length = t ∧ InsStmt i it st st'
+
+theorem SeqsRel.refl_id (l : List (String × Denote.Bind)) : SeqsRel id l l := by
+  intro x
+  cases l.lookup x with
+  | none => trivial
+  | some b => exact ⟨(rnSeg_id _).symm, rfl, (rnSeg_id _).symm⟩
+
+theorem StrandsRel.refl_id (l : List (String × List Nuc × List (List Nuc))) : StrandsRel id l l := by
+  intro x
+  cases l.lookup x with
+  | none => trivial
+  | some b => exact (rnSeg_id _).symm
+
+theorem rnOut_id (o : Out) : rnOut id o = o := by
+  have : rnSeg id = id := by funext s; exact rnSeg_id s
+  simp [rnOut, this]
+
+theorem insertAt_flatten_nil (l : List (List Nuc)) (j : Nat) : (insertAt l j []).flatten = l.flatten := by
+  unfold insertAt
+  rw [List.flatten_append, List.flatten_cons, List.nil_append, ← List.flatten_append, List.take_append_drop]
+
+/-- the statement with a zero-length reference inserted simulates the original one (identity renaming) -/
+theorem stmt_ref_rel (pfx : String) (env : Env) (o : Out) {i : Nat} {z : String} {star : Bool} {st st' : Stmt}
+    (hins : InsStmt i (.ref z star) st st') {b : Denote.Bind} (hz : env.seqs.lookup z = some b) (hb : b.nucs = []) :
+    ExRel (fun p q => StRel id 0 p q ∧ 0 ≤ p.1.anon) (denoteStmt pfx env o st) (denoteStmt pfx env o st') := by
+  cases hins with
+  | seq name items len h1 h2 =>
+    rw [denoteStmt_seq _ _ _ _ _ _ h1, denoteStmt_seq _ _ _ _ _ _ h2]
+    by_cases hd : (env.seqs.lookup name).isSome = true
+    · simp [hd, ExRel]
+    · simp only [hd, Bool.false_eq_true, if_false, insItems]
+      rw [denoteRegion_insert_ref pfx env items i z star len hz hb]
+      cases denoteRegion pfx env items len with
+      | error err => simp [ExRel, Except.map]
+      | ok r =>
+        simp only [ExRel, Except.map, StRel, seqResult, insSeg, insertAt_flatten_nil, rnOut_id]
+        refine ⟨⟨⟨rfl, ?_, StrandsRel.refl_id _⟩, trivial⟩, Nat.zero_le _⟩
+        exact (SeqsRel.refl_id _).snoc name ⟨(rnSeg_id _).symm, rfl, by
+          simp only [insertAt_flatten_nil]; exact (rnSeg_id _).symm⟩
+  | strand d name items len =>
+    rw [denoteStmt_strand, denoteStmt_strand]
+    by_cases hd : (env.strands.lookup name).isSome = true
+    · simp [hd, ExRel]
+    · simp only [hd, Bool.false_eq_true, if_false, insItems]
+      rw [denoteRegion_insert_ref pfx env items i z star len hz hb]
+      cases denoteRegion pfx env items len with
+      | error err => simp [ExRel, Except.map]
+      | ok r =>
+        simp only [Except.map, insSeg, insertAt_flatten_nil]
+        cases r.1.flatten.isEmpty
+        · simp only [Bool.false_eq_true, if_false, ExRel, StRel, strandResult, insertAt_flatten_nil, rnOut_id]
+          refine ⟨⟨⟨rfl, SeqsRel.refl_id _, ?_⟩, trivial⟩, Nat.zero_le _⟩
+          exact (StrandsRel.refl_id _).snoc name (rnSeg_id _).symm
+        · simp [ExRel]
+
+theorem CompRel_id_eq {x y : Except Denote.Err (Out × List (List Nuc × Bool) × Nat)}
+    (h : ExRel (CompRel id 0) x y) : y = x := by
+  cases x with
+  | error e =>
+    cases y with
+    | error e' => simp only [ExRel] at h; rw [h]
+    | ok r => simp [ExRel] at h
+  | ok r =>
+    cases y with
+    | error e' => simp [ExRel] at h
+    | ok r' =>
+      simp only [ExRel, CompRel, rnOut_id] at h
+      obtain ⟨h1, h2, h3⟩ := h
+      have : rnSeg id = id := by funext s; exact rnSeg_id s
+      simp only [this, id, Nat.add_zero] at h2
+      have h2' : r'.2.1 = r.2.1 := by rw [h2]; simp
+      obtain ⟨a, b, c⟩ := r
+      obtain ⟨a', b', c'⟩ := r'
+      simp only at h1 h2' h3
+      subst h1 h2' h3
+      rfl
+
+/-- **Inertness, named reference.**  Inserting a reference to a zero-length sequence into one
+    super-sequence or strand statement of a component leaves what the component denotes unchanged — same
+    error, or the same `Out`, ports and counter — provided no later structure statement is domain-level
+    (a domain-level structure counts the segments of its strands, so its notation has to change with them). -/
+theorem inert_ref (pfx : String) (a : Nat) (src src' : Src) (t i : Nat) (z : String) (star : Bool)
+    (h : InsertZero src src' t i (.ref z star))
+    (hz : ∀ env o, denoteStmts pfx (src.stmts.take t) { anon := a } {} = .ok (env, o) →
+      ∃ b, env.seqs.lookup z = some b ∧ b.nucs = [])
+    (hplain : ∀ s ∈ src.stmts.drop (t + 1), ∀ opt name strands domain text,
+      s = .struct opt name strands domain text → domain = false) :
+    denoteComp src' pfx a = denoteComp src pfx a := by
+  obtain ⟨pre, st, st', post, h1, h2, hlen, hins⟩ := h.stmts
+  have htake : src.stmts.take t = pre := by rw [h1, ← hlen]; simp
+  have hdrop : src.stmts.drop (t + 1) = post := by
+    rw [h1, ← hlen]
+    simp
+  apply CompRel_id_eq
+  refine comp_rel pfx (ρ := id) (n0 := 0) (k := 0) (fun m _ => rfl) src src' pre post st st' a h1 h2
+    h.inputs h.outputs ?_ ?_
+  · intro s hs
+    cases s with
+    | seq name items len => rfl
+    | strand d name items len => trivial
+    | struct opt name strands domain text =>
+      exact hplain _ (hdrop ▸ hs) opt name strands domain text rfl
+    | kinetic lo hi ins outs => trivial
+  · intro env o hpre
+    obtain ⟨b, hzb, hb⟩ := hz env o (htake ▸ hpre)
+    exact stmt_ref_rel pfx env o hins hzb hb
+
+/-! ### the quoted case -/
+
+theorem fixedNucs_take_le (items : List SrcItem) (i : Nat) : fixedNucs (items.take i) ≤ fixedNucs items := by
+  induction items generalizing i with
+  | nil => simp [fixedNucs]
+  | cons x r ih =>
+    cases i with
+    | zero => simp [fixedNucs]
+    | succ j =>
+      have := ih j
+      cases x <;> simp [List.take, fixedNucs] <;> omega
+
+theorem denoteRegion_counter_ge {pfx : String} {env : Env} {items : List SrcItem} {length : Option Nat}
+    {r : List (List Nuc) × List (String × List Char) × Nat} (h : denoteRegion pfx env items length = .ok r) :
+    env.anon + fixedNucs items ≤ r.2.2 := by
+  rw [denoteRegion_eq_blocks] at h
+  cases hb : blocks pfx env items env.anon false with
+  | error e => simp [hb] at h
+  | ok p =>
+    simp only [hb] at h
+    have := blocks_counter pfx env items env.anon false (bs := p.1) (n' := p.2) hb
+    have := finishB_counter h
+    omega
+
+theorem withNewDomains_congr (o : Out) {d1 d2 : List (String × List Char)}
+    (h : d1.filter (fun d => d.2.length != 0) = d2.filter (fun d => d.2.length != 0)) :
+    withNewDomains o d1 = withNewDomains o d2 := by
+  simp only [withNewDomains, h]
+
+/-- the two regions of a quoted insertion, case by case -/
+theorem region_quoted_cases (pfx : String) (env : Env) (items : List SrcItem) (i : Nat) (text : List Char)
+    (length : Option Nat) (hq : resolve (parseQuoted text) none = .ok (0, []))
+    {ρ : String → String} (hs : SeqsRel ρ env.seqs env.seqs)
+    (hlt : ∀ m, m < env.anon + fixedNucs (items.take i) → ρ (pfx ++ "_Anon" ++ toString m) = pfx ++ "_Anon" ++ toString m)
+    (hr : RenumP ρ pfx (env.anon + fixedNucs (items.take i)) 1) :
+    ExRel (fun r r' => r'.1.flatten = rnSeg ρ r.1.flatten ∧
+        r'.2.1.filter (fun d => d.2.length != 0) = (r.2.1.map (fun d => (ρ d.1, d.2))).filter (fun d => d.2.length != 0) ∧
+        r'.2.2 = r.2.2 + 1)
+      (denoteRegion pfx env items length) (denoteRegion pfx env (insItems items i (.nuc text)) length) := by
+  have h := denoteRegion_insert_quoted pfx env items i text length hq hs hlt hr
+  unfold insItems
+  cases h1 : denoteRegion pfx env items length with
+  | error err =>
+    rw [h1] at h
+    rw [map_eq_error h]
+    rfl
+  | ok r =>
+    rw [h1] at h
+    obtain ⟨r', hr', hf⟩ := map_eq_ok h
+    rw [hr']
+    simp only [flat3, rn3, nz3, Prod.mk.injEq] at hf
+    exact hf
+
+/-- the statement with a zero-length quoted region inserted simulates the original one, the anonymous
+    domains from the insertion point on renumbered by one -/
+theorem stmt_quoted_rel (pfx : String) (env : Env) (o : Out) {i : Nat} {text : List Char} {st st' : Stmt}
+    (hins : InsStmt i (.nuc text) st st') (hq : resolve (parseQuoted text) none = .ok (0, []))
+    {ρ : String → String} {n1 : Nat}
+    (hs : SeqsRel ρ env.seqs env.seqs) (hstr : StrandsRel ρ env.strands env.strands) (ho : rnOut ρ o = o)
+    (hfix : stmtOk ρ pfx st)
+    (hn1 : ∀ name items len, (st = .seq name items len ∨ ∃ d, st = .strand d name items len) →
+      n1 = env.anon + fixedNucs (items.take i))
+    (hlt : ∀ m, m < n1 → ρ (pfx ++ "_Anon" ++ toString m) = pfx ++ "_Anon" ++ toString m)
+    (hr : RenumP ρ pfx n1 1) :
+    ExRel (fun p q => StRel ρ 1 p q ∧ n1 ≤ p.1.anon) (denoteStmt pfx env o st) (denoteStmt pfx env o st') := by
+  cases hins with
+  | seq name items len h1 h2 =>
+    have hn := hn1 name items len (Or.inl rfl)
+    subst hn
+    have hname : ρ (pfx ++ name) = pfx ++ name := hfix
+    rw [denoteStmt_seq _ _ _ _ _ _ h1, denoteStmt_seq _ _ _ _ _ _ h2]
+    by_cases hd : (env.seqs.lookup name).isSome = true
+    · simp [hd, ExRel]
+    · simp only [hd, Bool.false_eq_true, if_false]
+      have hreg := region_quoted_cases pfx env items i text len hq hs hlt hr
+      cases h1 : denoteRegion pfx env items len with
+      | error err =>
+        rw [h1] at hreg
+        cases h2 : denoteRegion pfx env (insItems items i (.nuc text)) len with
+        | error err' => rw [h2] at hreg; simpa [ExRel] using hreg
+        | ok r' => rw [h2] at hreg; simp [ExRel] at hreg
+      | ok r =>
+        rw [h1] at hreg
+        cases h2 : denoteRegion pfx env (insItems items i (.nuc text)) len with
+        | error err' => rw [h2] at hreg; simp [ExRel] at hreg
+        | ok r' =>
+          rw [h2] at hreg
+          simp only [ExRel] at hreg
+          obtain ⟨hf, hdm, han⟩ := hreg
+          have hge := denoteRegion_counter_ge h1
+          have hle := fixedNucs_take_le items i
+          simp only [ExRel, StRel, seqResult]
+          refine ⟨⟨⟨han, hs.snoc name ⟨hf, rfl, hf⟩, hstr⟩, ?_⟩, by omega⟩
+          rw [hf, rnSeg_isEmpty, withNewDomains_congr o hdm]
+          conv => lhs; rw [← ho]
+          rw [rnOut_withNewDomains]
+          cases r.1.flatten.isEmpty
+          · simp [rnOut, hname]
+          · rfl
+  | strand d name items len =>
+    have hn := hn1 name items len (Or.inr ⟨d, rfl⟩)
+    subst hn
+    rw [denoteStmt_strand, denoteStmt_strand]
+    by_cases hd : (env.strands.lookup name).isSome = true
+    · simp [hd, ExRel]
+    · simp only [hd, Bool.false_eq_true, if_false]
+      have hreg := region_quoted_cases pfx env items i text len hq hs hlt hr
+      cases h1 : denoteRegion pfx env items len with
+      | error err =>
+        rw [h1] at hreg
+        cases h2 : denoteRegion pfx env (insItems items i (.nuc text)) len with
+        | error err' => rw [h2] at hreg; simpa [ExRel] using hreg
+        | ok r' => rw [h2] at hreg; simp [ExRel] at hreg
+      | ok r =>
+        rw [h1] at hreg
+        cases h2 : denoteRegion pfx env (insItems items i (.nuc text)) len with
+        | error err' => rw [h2] at hreg; simp [ExRel] at hreg
+        | ok r' =>
+          rw [h2] at hreg
+          simp only [ExRel] at hreg
+          obtain ⟨hf, hdm, han⟩ := hreg
+          have hge := denoteRegion_counter_ge h1
+          have hle := fixedNucs_take_le items i
+          dsimp only
+          rw [hf, rnSeg_isEmpty]
+          cases hz : r.1.flatten.isEmpty
+          · simp only [Bool.false_eq_true, if_false, ExRel, StRel, strandResult]
+            refine ⟨⟨⟨han, hs, hstr.snoc name hf⟩, ?_⟩, by omega⟩
+            rw [withNewDomains_congr o hdm]
+            conv => lhs; rw [← ho]
+            rw [rnOut_withNewDomains, hf]
+            simp [rnOut]
+          · simp [ExRel]
+
+/-- **Inertness, quoted region.**  Inserting a zero-length quoted region into one super-sequence or strand
+    statement consumes one anonymous name; the component then denotes the same thing with the later anonymous
+    domains renumbered: same error, or `Out`, ports and counter related by `CompRel ρ 1`.  `ρ` is any renaming
+    that fixes everything the statements before the insertion point have produced (`hpre`), the anonymous names
+    below the insertion point `n1`, the full names of later sequence definitions, and maps
+    `_Anon m ↦ _Anon (m+1)` from `n1` on; no later structure statement may be domain-level. -/
+theorem inert_quoted (pfx : String) (a : Nat) (src src' : Src) (t i : Nat) (text : List Char)
+    (h : InsertZero src src' t i (.nuc text)) (hq : resolve (parseQuoted text) none = .ok (0, []))
+    (ρ : String → String) (n1 : Nat)
+    (hpre : ∀ env o, denoteStmts pfx (src.stmts.take t) { anon := a } {} = .ok (env, o) →
+      SeqsRel ρ env.seqs env.seqs ∧ StrandsRel ρ env.strands env.strands ∧ rnOut ρ o = o ∧
+      ∀ name items len, (src.stmts[t]? = some (.seq name items len) ∨ ∃ d, src.stmts[t]? = some (.strand d name items len)) →
+        n1 = env.anon + fixedNucs (items.take i))
+    (hlt : ∀ m, m < n1 → ρ (pfx ++ "_Anon" ++ toString m) = pfx ++ "_Anon" ++ toString m)
+    (hr : RenumP ρ pfx n1 1)
+    (hok : ∀ s ∈ src.stmts.drop t, stmtOk ρ pfx s) :
+    ExRel (CompRel ρ 1) (denoteComp src pfx a) (denoteComp src' pfx a) := by
+  obtain ⟨pre, st, st', post, h1, h2, hlen, hins⟩ := h.stmts
+  have htake : src.stmts.take t = pre := by rw [h1, ← hlen]; simp
+  have hdrop : src.stmts.drop t = st :: post := by rw [h1, ← hlen]; simp
+  have hget : src.stmts[t]? = some st := by rw [h1, ← hlen]; simp
+  refine comp_rel pfx hr src src' pre post st st' a h1 h2 h.inputs h.outputs ?_ ?_
+  · intro s hs
+    exact hok s (by rw [hdrop]; exact List.mem_cons_of_mem _ hs)
+  · intro env o hp
+    obtain ⟨hs, hstr, ho, hn⟩ := hpre env o (htake ▸ hp)
+    refine stmt_quoted_rel pfx env o hins hq hs hstr ho (hok st (by rw [hdrop]; exact List.mem_cons_self)) ?_ hlt hr
+    intro name items len hst
+    apply hn name items len
+    rcases hst with rfl | ⟨d, rfl⟩
+    · exact Or.inl hget
+    · exact Or.inr ⟨d, hget⟩
+
+/-! ### defining a zero-length atomic sequence -/
+
+/-- a zero-length atomic definition only binds the name: nothing is added to `Out`, the counter stays -/
+theorem denoteStmt_zero_atom (pfx : String) (env : Env) (o : Out) (z : String) (text : List Char) (len : Option Nat)
+    {c : List Char} (hq : resolve (parseQuoted text) len = .ok (0, c)) (hnew : env.seqs.lookup z = none) :
+    denoteStmt pfx env o (.seq z [.nuc text] len) =
+      .ok ({ env with seqs := env.seqs ++ [(z, ⟨[], [[]], false⟩)] }, o) := by
+  rw [denoteStmt_atom, hnew, hq]
+  simp [atomResult, fwd]
+
+theorem portsOf_snoc_fresh (pfx : String) (env : Env) (o : Out) (z : String) (b : Denote.Bind) (ps : List Comp.Port)
+    (hz : ∀ p ∈ ps, p.seq ≠ z) :
+    portsOf pfx { env with seqs := env.seqs ++ [(z, b)] } o ps = portsOf pfx env o ps := by
+  unfold portsOf
+  induction ps with
+  | nil => rfl
+  | cons p r ih =>
+    have hp : portOf pfx { env with seqs := env.seqs ++ [(z, b)] } o p = portOf pfx env o p := by
+      unfold portOf
+      have hne : (p.seq == z) = false := by simpa using hz p List.mem_cons_self
+      simp only [List.lookup_append, List.lookup, hne]
+      cases env.seqs.lookup p.seq <;> rfl
+    simp only [List.mapM_cons, hp, ih (fun q hq => hz q (List.mem_cons_of_mem _ hq))]
+
+/-- a zero-length atomic definition as the last statement of a component changes nothing the component
+    denotes (the name is new and is not a port) -/
+theorem zero_definition_last (src : Src) (pfx : String) (a : Nat) (z : String) (text : List Char) (len : Option Nat)
+    {c : List Char} (hq : resolve (parseQuoted text) len = .ok (0, c))
+    (hnew : ∀ env o, denoteStmts pfx src.stmts { anon := a } {} = .ok (env, o) → env.seqs.lookup z = none)
+    (hport : ∀ p ∈ src.inputs ++ src.outputs, p.seq ≠ z) :
+    denoteComp { src with stmts := src.stmts ++ [.seq z [.nuc text] len] } pfx a = denoteComp src pfx a := by
+  rw [denoteComp_eq, denoteComp_eq]
+  simp only [denoteStmts_append]
+  cases hp : denoteStmts pfx src.stmts { anon := a } {} with
+  | error e => rfl
+  | ok p =>
+    obtain ⟨env, o⟩ := p
+    simp only [denoteStmts, denoteStmt_zero_atom pfx env o z text len hq (hnew env o hp)]
+    rw [portsOf_snoc_fresh pfx env o z _ _ hport]
+
+/-- statement level, named reference: the contribution to `Out` and the counter are unchanged; the new
+    environment binds the same names to the same nucleotides -/
+theorem stmt_insert_ref_out (pfx : String) (env : Env) (o : Out) {i : Nat} {z : String} {star : Bool} {st st' : Stmt}
+    (hins : InsStmt i (.ref z star) st st') {b : Denote.Bind} (hz : env.seqs.lookup z = some b) (hb : b.nucs = []) :
+    (denoteStmt pfx env o st').map (fun p => (p.2, p.1.anon)) = (denoteStmt pfx env o st).map (fun p => (p.2, p.1.anon)) := by
+  have h := stmt_ref_rel pfx env o hins hz hb
+  cases h1 : denoteStmt pfx env o st with
+  | error e =>
+    rw [h1] at h
+    cases h2 : denoteStmt pfx env o st' with
+    | error e' => rw [h2] at h; simp only [ExRel] at h; rw [h]
+    | ok q => rw [h2] at h; simp [ExRel] at h
+  | ok p =>
+    rw [h1] at h
+    cases h2 : denoteStmt pfx env o st' with
+    | error e' => rw [h2] at h; simp [ExRel] at h
+    | ok q =>
+      rw [h2] at h
+      simp only [ExRel, StRel, rnOut_id] at h
+      obtain ⟨⟨he, ho⟩, _⟩ := h
+      simp only [Except.map, ho, he.anon, Nat.add_zero]
+
+instance instDecEqExcept {ε α} [DecidableEq ε] [DecidableEq α] : DecidableEq (Except ε α)
+  | .ok a, .ok b => if h : a = b then isTrue (by rw [h]) else isFalse (fun c => h (by injection c))
+  | .error a, .error b => if h : a = b then isTrue (by rw [h]) else isFalse (fun c => h (by injection c))
+  | .ok _, .error _ => isFalse (fun c => nomatch c)
+  | .error _, .ok _ => isFalse (fun c => nomatch c)
+
+/-- a decidable view of what a component denotes (for the examples) -/
+structure Obs where
+  domains : List (String × List Char)
+  baseSeqs : List (String × List Nuc)
+  supSeqs : List (String × List Nuc)
+  strands : List (String × Bool × List Nuc)
+  structs : List StructD
+  ports : List (List Nuc × Bool)
+  anon : Nat
+deriving DecidableEq
+
+def obsComp (r : Except Denote.Err (Out × List (List Nuc × Bool) × Nat)) : Option Obs :=
+  match r with
+  | .ok (o, ports, n) => some ⟨o.domains, o.baseSeqs, o.supSeqs, o.strands, o.structs, ports, n⟩
+  | .error _ => none
+
+/-! ### a concrete renumbering of full names -/
+section concrete
+open Pepper.CompShift
+
+/-- the renumbering of full names under prefix `pfx`: `pfx ++ x ↦ pfx ++ shift n k x`, names without the prefix
+    unchanged -/
+def shiftFull (pfx : String) (n k : Nat) (s : String) : String :=
+  if pfx.toList.isPrefixOf s.toList then pfx ++ shift n k (String.ofList (s.toList.drop pfx.toList.length)) else s
+
+theorem shiftFull_pfx (pfx : String) (n k : Nat) (x : String) : shiftFull pfx n k (pfx ++ x) = pfx ++ shift n k x := by
+  unfold shiftFull
+  have h1 : pfx.toList.isPrefixOf (pfx ++ x).toList = true := by
+    rw [List.isPrefixOf_iff_prefix, String.toList_append]
+    exact List.prefix_append _ _
+  rw [if_pos h1, String.toList_append, List.drop_left, String.ofList_toList]
+
+theorem pfxAnon_eq (pfx : String) (m : Nat) : pfx ++ "_Anon" ++ toString m = pfx ++ anonName m := by
+  rw [String.append_assoc]; rfl
+
+theorem shiftFull_renum (pfx : String) (n k : Nat) : RenumP (shiftFull pfx n k) pfx n k := by
+  intro m hm
+  rw [pfxAnon_eq, pfxAnon_eq, shiftFull_pfx, shift_anonName hm]
+
+theorem shiftFull_lt (pfx : String) (n k : Nat) {m : Nat} (hm : m < n) :
+    shiftFull pfx n k (pfx ++ "_Anon" ++ toString m) = pfx ++ "_Anon" ++ toString m := by
+  rw [pfxAnon_eq, shiftFull_pfx, shift_anonName_lt hm]
+
+theorem shiftFull_user (pfx : String) (n k : Nat) {x : String} (hx : isAnon x = false) :
+    shiftFull pfx n k (pfx ++ x) = pfx ++ x := by
+  rw [shiftFull_pfx, shift_user hx]
+
+theorem shiftFull_injective (pfx : String) (n k : Nat) {s t : String}
+    (h : shiftFull pfx n k s = shiftFull pfx n k t) : s = t := by
+  have key : ∀ u : String, pfx.toList.isPrefixOf u.toList = true →
+      u = pfx ++ String.ofList (u.toList.drop pfx.toList.length) := by
+    intro u hu
+    rw [List.isPrefixOf_iff_prefix, List.prefix_iff_eq_append] at hu
+    apply String.toList_inj.1
+    rw [String.toList_append, String.toList_ofList, hu]
+  have hpre : ∀ y : String, pfx.toList.isPrefixOf (pfx ++ y).toList = true := by
+    intro y
+    rw [List.isPrefixOf_iff_prefix, String.toList_append]
+    exact List.prefix_append _ _
+  unfold shiftFull at h
+  by_cases hs : pfx.toList.isPrefixOf s.toList = true <;> by_cases ht : pfx.toList.isPrefixOf t.toList = true
+  · rw [if_pos hs, if_pos ht] at h
+    have := shift_injective n k ((String.append_right_inj pfx).1 h)
+    rw [key s hs, key t ht, this]
+  · rw [if_pos hs, if_neg ht] at h
+    rw [← h] at ht
+    exact absurd (hpre _) ht
+  · rw [if_neg hs, if_pos ht] at h
+    rw [h] at hs
+    exact absurd (hpre _) hs
+  · rw [if_neg hs, if_neg ht] at h
+    exact h
+
+/-! #### what the earlier statements produced is fixed by a renaming that only moves later anonymous names -/
+
+/-- `ρ` fixes everything bound in the environment and held in `Out` -/
+structure FixInv (ρ : String → String) (e : Env) (o : Out) : Prop where
+  seqs : SeqsRel ρ e.seqs e.seqs
+  strands : StrandsRel ρ e.strands e.strands
+  out : rnOut ρ o = o
+
+theorem rnOut_fields {ρ : String → String} {o : Out} (h : rnOut ρ o = o) :
+    o.domains.map (fun d => (ρ d.1, d.2)) = o.domains ∧ o.baseSeqs.map (fun d => (ρ d.1, rnSeg ρ d.2)) = o.baseSeqs ∧
+    o.supSeqs.map (fun d => (ρ d.1, rnSeg ρ d.2)) = o.supSeqs ∧
+    o.strands.map (fun s => (s.1, s.2.1, rnSeg ρ s.2.2)) = o.strands :=
+  ⟨congrArg Out.domains h, congrArg Out.baseSeqs h, congrArg Out.supSeqs h, congrArg Out.strands h⟩
+
+theorem fNucs_fixed {ρ : String → String} {fl : List FItem} (h : fl.map (rnF ρ) = fl) (x : List Nuc)
+    (hx : rnSeg ρ x = x) : rnSeg ρ (fNucs x fl) = fNucs x fl := by
+  have := fNucs_rn ρ x fl
+  rw [h, hx] at this
+  exact this.symm
+
+theorem fDoms_fixed {ρ : String → String} {fl : List FItem} (h : fl.map (rnF ρ) = fl) (wd : String × List Char)
+    (hx : ρ wd.1 = wd.1) : (fDoms wd fl).map (fun d => (ρ d.1, d.2)) = fDoms wd fl := by
+  have := fDoms_rn ρ wd fl
+  rw [h, hx] at this
+  exact this.symm
+
+theorem finishF_fixed {pfx : String} {ρ : String → String} {fl : List FItem} {n : Nat} {length : Option Nat}
+    {r : List Nuc × List (String × List Char) × Nat} (hfl : fl.map (rnF ρ) = fl)
+    (h : finishF pfx fl n length = .ok r)
+    (hn : n < r.2.2 → ρ (pfx ++ "_Anon" ++ toString n) = pfx ++ "_Anon" ++ toString n) :
+    rnSeg ρ r.1 = r.1 ∧ r.2.1.map (fun d => (ρ d.1, d.2)) = r.2.1 := by
+  unfold finishF at h
+  split at h
+  · rename_i hw
+    have e1 : (fDoms ("", []) fl).map (fun d => (ρ d.1, d.2)) = fDoms ("", []) fl := by
+      have := fDoms_rn ρ ("", []) fl
+      rw [hfl, fDoms_irrel (ρ "", []) ("", []) fl hw] at this
+      exact this.symm
+    have e0 := fNucs_fixed hfl [] rfl
+    split at h
+    · split at h
+      · cases h
+      · injection h with h; subst h; exact ⟨e0, e1⟩
+    · injection h with h; subst h; exact ⟨e0, e1⟩
+  · split at h
+    · cases h
+    · split at h
+      · cases h
+      · split at h
+        · cases h
+        · injection h with h
+          subst h
+          have hn' := hn (Nat.lt_succ_self n)
+          exact ⟨fNucs_fixed hfl _ (by rw [rnSeg_fwd, hn']), fDoms_fixed hfl _ hn'⟩
+
+theorem region_fixed {pfx : String} {ρ : String → String} {e : Env} (hs : SeqsRel ρ e.seqs e.seqs)
+    {items : List SrcItem} {len : Option Nat} {r : List (List Nuc) × List (String × List Char) × Nat}
+    (h : denoteRegion pfx e items len = .ok r)
+    (hfix : ∀ m, e.anon ≤ m → m < r.2.2 → ρ (pfx ++ "_Anon" ++ toString m) = pfx ++ "_Anon" ++ toString m) :
+    rnSeg ρ r.1.flatten = r.1.flatten ∧ r.2.1.map (fun d => (ρ d.1, d.2)) = r.2.1 := by
+  have hf := denoteRegion_flat pfx e items len
+  rw [h] at hf
+  cases hb : blocks pfx e items e.anon false with
+  | error err => simp [hb, Except.map] at hf
+  | ok p =>
+    simp only [hb, Except.map] at hf
+    have hle := blocks_counter_le pfx e items e.anon false (bs := p.1) (n' := p.2) hb
+    have hcnt : p.2 ≤ r.2.2 := by
+      have := finishB_flat pfx p.1 p.2 len
+      rw [denoteRegion_eq_blocks, hb] at h
+      exact finishB_counter h
+    have hfl := blocks_fixed pfx e hs items e.anon false (bs := p.1) (n' := p.2) hb
+      (fun m h1 h2 => hfix m h1 (by omega))
+    have := finishF_fixed (r := flat3 r) hfl hf.symm (fun hlt => hfix p.2 hle hlt)
+    exact this
+
+theorem denoteStmt_struct_inv {pfx : String} {e e1 : Env} {o o1 : Out} {opt : OptSrc} {name : String}
+    {strands : List String} {domain : Bool} {text : List Char}
+    (h : denoteStmt pfx e o (.struct opt name strands domain text) = .ok (e1, o1)) :
+    e1 = e ∧ ∃ x, o1 = { o with structs := o.structs ++ [x] } := by
+  rw [denoteStmt] at h
+  simp only [bind, Except.bind, pure, Except.pure] at h
+  repeat' split at h
+  all_goals first
+    | (cases h; done)
+    | (simp [throw, throwThe, MonadExceptOf.throw] at h; done)
+    | (simp only [Except.ok.injEq, Prod.mk.injEq] at h
+       obtain ⟨h1, h2⟩ := h
+       exact ⟨h1.symm, _, h2.symm⟩)
+
+/-- the full name of a sequence the statement defines is fixed -/
+def stmtNameFixed (ρ : String → String) (pfx : String) : Stmt → Prop
+  | .seq name _ _ => ρ (pfx ++ name) = pfx ++ name
+  | _ => True
+
+theorem stmt_fixed {pfx : String} {ρ : String → String} {e e1 : Env} {o o1 : Out} {st : Stmt}
+    (hI : FixInv ρ e o) (hname : stmtNameFixed ρ pfx st) (h : denoteStmt pfx e o st = .ok (e1, o1))
+    (hfix : ∀ m, e.anon ≤ m → m < e1.anon → ρ (pfx ++ "_Anon" ++ toString m) = pfx ++ "_Anon" ++ toString m) :
+    FixInv ρ e1 o1 ∧ e.anon ≤ e1.anon := by
+  cases st with
+  | seq name items len =>
+    have hn : ρ (pfx ++ name) = pfx ++ name := hname
+    by_cases hat : ∃ t, items = [.nuc t]
+    · obtain ⟨text, rfl⟩ := hat
+      rw [denoteStmt_atom] at h
+      split at h
+      · cases h
+      · split at h
+        · cases h
+        · rename_i l c _
+          injection h with h
+          simp only [atomResult, Prod.mk.injEq] at h
+          obtain ⟨rfl, rfl⟩ := h
+          refine ⟨⟨hI.seqs.snoc name ⟨by rw [rnSeg_fwd, hn], rfl, by simp [rnSeg_fwd, hn]⟩, hI.strands, ?_⟩,
+            Nat.le_refl _⟩
+          cases l == 0
+          · obtain ⟨d1, d2, d3, d4⟩ := rnOut_fields hI.out
+            simp only [rnOut, Bool.false_eq_true, if_false, List.map_append, List.map_cons, List.map_nil, hn,
+              rnSeg_fwd, d1, d2, d3, d4]
+          · exact hI.out
+    · have hat' : ∀ t, items ≠ [.nuc t] := fun t h => hat ⟨t, h⟩
+      rw [denoteStmt_seq _ _ _ _ _ _ hat'] at h
+      split at h
+      · cases h
+      · cases hr : denoteRegion pfx e items len with
+        | error err => simp [hr] at h
+        | ok r =>
+          simp only [hr, Except.ok.injEq, seqResult, Prod.mk.injEq] at h
+          obtain ⟨rfl, rfl⟩ := h
+          obtain ⟨hf, hd⟩ := region_fixed hI.seqs hr hfix
+          refine ⟨⟨hI.seqs.snoc name ⟨hf.symm, rfl, hf.symm⟩, hI.strands, ?_⟩, denoteRegion_anon_le hr⟩
+          have hw : rnOut ρ (withNewDomains o r.2.1) = withNewDomains o r.2.1 := by
+            rw [← rnOut_withNewDomains, hI.out, hd]
+          cases r.1.flatten.isEmpty
+          · obtain ⟨d1, d2, d3, d4⟩ := rnOut_fields hw
+            simp only [rnOut, Bool.false_eq_true, if_false, List.map_append, List.map_cons, List.map_nil, hn, hf,
+              d1, d2, d3, d4]
+          · exact hw
+  | strand dummy name items len =>
+    rw [denoteStmt_strand] at h
+    split at h
+    · cases h
+    · cases hr : denoteRegion pfx e items len with
+      | error err => simp [hr] at h
+      | ok r =>
+        simp only [hr] at h
+        split at h
+        · cases h
+        · simp only [Except.ok.injEq, strandResult, Prod.mk.injEq] at h
+          obtain ⟨rfl, rfl⟩ := h
+          obtain ⟨hf, hd⟩ := region_fixed hI.seqs hr hfix
+          refine ⟨⟨hI.seqs, hI.strands.snoc name hf.symm, ?_⟩, denoteRegion_anon_le hr⟩
+          have hw : rnOut ρ (withNewDomains o r.2.1) = withNewDomains o r.2.1 := by
+            rw [← rnOut_withNewDomains, hI.out, hd]
+          obtain ⟨d1, d2, d3, d4⟩ := rnOut_fields hw
+          simp only [rnOut, List.map_append, List.map_cons, List.map_nil, hf, d1, d2, d3, d4]
+  | struct opt name strands domain text =>
+    obtain ⟨rfl, x, rfl⟩ := denoteStmt_struct_inv h
+    refine ⟨⟨hI.seqs, hI.strands, ?_⟩, Nat.le_refl _⟩
+    obtain ⟨d1, d2, d3, d4⟩ := rnOut_fields hI.out
+    simp only [rnOut, d1, d2, d3, d4]
+  | kinetic lo hi ins outs =>
+    rw [denoteStmt_kinetic] at h
+    split at h
+    · cases h
+    · split at h
+      · cases h
+      · injection h with h
+        simp only [Prod.mk.injEq] at h
+        obtain ⟨rfl, rfl⟩ := h
+        refine ⟨⟨hI.seqs, hI.strands, ?_⟩, Nat.le_refl _⟩
+        obtain ⟨d1, d2, d3, d4⟩ := rnOut_fields hI.out
+        simp only [rnOut, d1, d2, d3, d4]
+
+theorem stmts_fixed {pfx : String} {ρ : String → String} {e1 : Env} {o1 : Out} :
+    ∀ (stmts : List Stmt) {e : Env} {o : Out}, FixInv ρ e o → (∀ st ∈ stmts, stmtNameFixed ρ pfx st) →
+      denoteStmts pfx stmts e o = .ok (e1, o1) →
+      (∀ m, e.anon ≤ m → m < e1.anon → ρ (pfx ++ "_Anon" ++ toString m) = pfx ++ "_Anon" ++ toString m) →
+      FixInv ρ e1 o1 ∧ e.anon ≤ e1.anon
+  | [], e, o, hI, _, h, _ => by
+    simp only [denoteStmts, Except.ok.injEq, Prod.mk.injEq] at h
+    obtain ⟨rfl, rfl⟩ := h
+    exact ⟨hI, Nat.le_refl _⟩
+  | st :: r, e, o, hI, hn, h, hfix => by
+    simp only [denoteStmts] at h
+    cases hs : denoteStmt pfx e o st with
+    | error err => simp [hs] at h
+    | ok p =>
+      obtain ⟨e2, o2⟩ := p
+      simp only [hs] at h
+      -- monotonicity of the rest does not need fixedness: use the identity renaming
+      have hmono : e2.anon ≤ e1.anon := by
+        have hid : FixInv id e2 o2 := ⟨SeqsRel.refl_id _, StrandsRel.refl_id _, rnOut_id _⟩
+        exact (stmts_fixed (ρ := id) r hid (fun s _ => by cases s <;> first | rfl | trivial) h (fun _ _ _ => rfl)).2
+      have h1 := stmt_fixed hI (hn st List.mem_cons_self) hs (fun m h1 h2 => hfix m h1 (by omega))
+      have h2 := stmts_fixed r h1.1 (fun s hs => hn s (List.mem_cons_of_mem _ hs)) h
+        (fun m h3 h4 => hfix m (by omega) h4)
+      exact ⟨h2.1, by omega⟩
+
+def stmtItems : Stmt → List SrcItem
+  | .seq _ items _ => items
+  | .strand _ _ items _ => items
+  | _ => []
+
+/-- **Inertness, quoted region, with the renaming constructed.**  For a source whose defined sequence names
+    are not of the reserved form and with no domain-level structure after the changed statement: there is a
+    counter value `n1` (the counter at the insertion point) such that the component with a zero-length quoted
+    region inserted denotes what the original denotes with `pfx ++ _Anon m ↦ pfx ++ _Anon (m+1)` for `m ≥ n1`
+    (`shiftFull pfx n1 1`, an injective renaming that moves nothing else) and the counter one higher. -/
+theorem inert_quoted_concrete (pfx : String) (a : Nat) (src src' : Src) (t i : Nat) (text : List Char)
+    (h : InsertZero src src' t i (.nuc text)) (hq : resolve (parseQuoted text) none = .ok (0, []))
+    (hnames : ∀ name items len, Stmt.seq name items len ∈ src.stmts → isAnon name = false)
+    (hplain : ∀ s ∈ src.stmts.drop (t + 1), ∀ opt name strands domain text,
+      s = .struct opt name strands domain text → domain = false) :
+    ∃ n1, ExRel (CompRel (shiftFull pfx n1 1) 1) (denoteComp src pfx a) (denoteComp src' pfx a) := by
+  obtain ⟨pre, st, st', post, h1, h2, hlen, hins⟩ := h.stmts
+  have htake : src.stmts.take t = pre := by rw [h1, ← hlen]; simp
+  have hdrop : src.stmts.drop t = st :: post := by rw [h1, ← hlen]; simp
+  have hdrop1 : src.stmts.drop (t + 1) = post := by rw [h1, ← hlen]; simp
+  have hget : src.stmts[t]? = some st := by rw [h1, ← hlen]; simp
+  have hstNotStruct : ∀ opt name strands domain text, st ≠ .struct opt name strands domain text := by
+    intro opt name strands domain text hc
+    cases hins <;> cases hc
+  -- every statement from `t` on is fine for any `shiftFull`
+  have hokAll : ∀ n1, ∀ s ∈ src.stmts.drop t, stmtOk (shiftFull pfx n1 1) pfx s := by
+    intro n1 s hs
+    have hsm : s ∈ src.stmts := List.mem_of_mem_drop hs
+    cases s with
+    | seq name items len => exact shiftFull_user pfx n1 1 (hnames name items len hsm)
+    | strand d name items len => trivial
+    | struct opt name strands domain text =>
+      rw [hdrop] at hs
+      rcases List.mem_cons.1 hs with hs | hs
+      · exact absurd hs.symm (hstNotStruct opt name strands domain text)
+      · exact hplain _ (hdrop1 ▸ hs) opt name strands domain text rfl
+    | kinetic lo hi ins outs => trivial
+  cases hp : denoteStmts pfx pre { anon := a } {} with
+  | error err =>
+    refine ⟨0, inert_quoted pfx a src src' t i text h hq _ 0 ?_ (fun m hm => absurd hm (Nat.not_lt_zero m))
+      (shiftFull_renum pfx 0 1) (hokAll 0)⟩
+    intro env o hpre
+    rw [htake, hp] at hpre
+    cases hpre
+  | ok p =>
+    obtain ⟨env, o⟩ := p
+    let n1 := env.anon + fixedNucs ((stmtItems st).take i)
+    refine ⟨n1, inert_quoted pfx a src src' t i text h hq _ n1 ?_ (fun m hm => shiftFull_lt pfx n1 1 hm)
+      (shiftFull_renum pfx n1 1) (hokAll n1)⟩
+    intro env' o' hpre
+    rw [htake, hp] at hpre
+    injection hpre with hpre
+    injection hpre with he ho
+    subst he ho
+    have h0 : FixInv (shiftFull pfx n1 1) ({ anon := a } : Env) ({} : Out) :=
+      ⟨fun x => trivial, fun x => trivial, rfl⟩
+    have hfx := stmts_fixed (ρ := shiftFull pfx n1 1) pre h0
+      (fun s hs => by
+        have hsm : s ∈ src.stmts := by rw [h1]; exact List.mem_append_left _ hs
+        cases s with
+        | seq name items len => exact shiftFull_user pfx n1 1 (hnames name items len hsm)
+        | strand d name items len => trivial
+        | struct opt name strands domain text => trivial
+        | kinetic lo hi ins outs => trivial)
+      hp
+      (fun m _ h2 => shiftFull_lt pfx n1 1 (by
+        show m < env.anon + fixedNucs ((stmtItems st).take i)
+        omega))
+    refine ⟨hfx.1.seqs, hfx.1.strands, hfx.1.out, ?_⟩
+    intro name items len hst
+    rcases hst with hst | ⟨d, hst⟩
+    · rw [hget] at hst
+      injection hst with hst
+      subst hst
+      rfl
+    · rw [hget] at hst
+      injection hst with hst
+      subst hst
+      rfl
+
+end concrete
+
+/-! ### the model side: nothing of length zero is emitted -/
+section emitted
+open Pepper.CompShift
+
+theorem expand_length (w : Nat) : ∀ parts : List (Mult × Char),
+    (expand w parts).length = fixedSum parts + w * wildCount parts
+  | [] => rfl
+  | (.num n, c) :: r => by simp [expand, fixedSum, wildCount, expand_length w r]; omega
+  | (.wild, c) :: r => by simp [expand, fixedSum, wildCount, expand_length w r, Nat.mul_add]; omega
+
+/-- the constraint string `resolve` returns has the length it returns -/
+theorem resolve_length {parts : List (Mult × Char)} {len : Option Nat} {l : Nat} {c : List Char}
+    (h : resolve parts len = .ok (l, c)) : c.length = l := by
+  unfold resolve at h
+  split at h
+  · cases h
+  · split at h
+    · rename_i h0
+      cases len with
+      | none =>
+        simp only [Except.ok.injEq, Prod.mk.injEq] at h
+        obtain ⟨rfl, rfl⟩ := h
+        simp [expand_length, h0]
+      | some l0 =>
+        dsimp only at h
+        split at h
+        · simp only [Except.ok.injEq, Prod.mk.injEq] at h
+          obtain ⟨rfl, rfl⟩ := h
+          rename_i heq
+          simp [expand_length, h0, heq]
+        · cases h
+    · rename_i h1 h0
+      have hw : wildCount parts = 1 := by omega
+      cases len with
+      | none => cases h
+      | some l0 =>
+        dsimp only at h
+        split at h
+        · cases h
+        · simp only [Except.ok.injEq, Prod.mk.injEq] at h
+          obtain ⟨rfl, rfl⟩ := h
+          simp [expand_length, hw]; omega
+
+/-- the item refers to an entry of the table and carries its length -/
+def ItemOk (l : List SeqE) (i : ItemRef) : Prop := ∃ e ∈ l, e.name = i.name ∧ e.len = i.len
+
+theorem ItemOk.mono {l : List SeqE} {i : ItemRef} (h : ItemOk l i) (x : List SeqE) : ItemOk (l ++ x) i := by
+  obtain ⟨e, he, h1, h2⟩ := h
+  exact ⟨e, List.mem_append_left _ he, h1, h2⟩
+
+theorem ItemOk.map {l : List SeqE} {i : ItemRef} (h : ItemOk l i) (f : SeqE → SeqE)
+    (hf : ∀ e, (f e).name = e.name ∧ (f e).len = e.len) : ItemOk (l.map f) i := by
+  obtain ⟨e, he, h1, h2⟩ := h
+  exact ⟨f e, List.mem_map_of_mem he, by rw [(hf e).1, h1], by rw [(hf e).2, h2]⟩
+
+/-- the invariant of the elaboration loop used here (`a`: the anonymous counter) -/
+structure Inv (s : St) (a : Nat) : Prop where
+  fresh : ∀ e ∈ s.seqs, ∀ k, a ≤ k → e.name ≠ anonName k
+  constLen : ∀ e ∈ s.seqs, e.isSup = false → e.const.length = e.len
+  seqItems : ∀ e ∈ s.seqs, ∀ i ∈ e.items, ItemOk s.seqs i
+  strandItems : ∀ t ∈ s.strands, ∀ i ∈ t.items, ItemOk s.seqs i
+
+theorem findSeq_some {s : St} {n : String} {e : SeqE} (h : s.findSeq n = some e) : e ∈ s.seqs ∧ e.name = n := by
+  unfold St.findSeq at h
+  exact ⟨List.mem_of_find?_eq_some h, by simpa using List.find?_some h⟩
+
+theorem mapM_mem {α β ε} {f : α → Except ε β} : ∀ {l : List α} {r : List β}, l.mapM f = .ok r →
+    ∀ y ∈ r, ∃ x ∈ l, f x = .ok y
+  | [], r, h, y, hy => by
+    simp only [List.mapM_nil, pure, Except.pure, Except.ok.injEq] at h
+    subst h
+    cases hy
+  | x :: t, r, h, y, hy => by
+    simp only [List.mapM_cons, bind, Except.bind] at h
+    cases hx : f x with
+    | error e => simp [hx] at h
+    | ok b =>
+      simp only [hx] at h
+      cases ht : List.mapM f t with
+      | error e => simp [ht] at h
+      | ok bs =>
+        simp only [ht, pure, Except.pure, Except.ok.injEq] at h
+        subst h
+        rcases List.mem_cons.1 hy with rfl | hy
+        · exact ⟨x, List.mem_cons_self, hx⟩
+        · obtain ⟨x', hx', hfx⟩ := mapM_mem ht y hy
+          exact ⟨x', List.mem_cons_of_mem _ hx', hfx⟩
+
+theorem cleanConst_itemOk {s : St} (hit : ∀ e ∈ s.seqs, ∀ i ∈ e.items, ItemOk s.seqs i) :
+    ∀ {items : List SrcItem} {cs : List CItem}, cleanConst s items = .ok cs →
+      ∀ i bs, CItem.obj i bs ∈ cs → ItemOk s.seqs i
+  | [], cs, h, i, bs, hm => by
+    simp only [cleanConst, Except.ok.injEq] at h
+    subst h
+    cases hm
+  | .nuc text :: r, cs, h, i, bs, hm => by
+    simp only [cleanConst, bind, Except.bind, pure, Except.pure] at h
+    cases hr : cleanConst s r with
+    | error e => simp [hr] at h
+    | ok rest =>
+      simp only [hr, Except.ok.injEq] at h
+      subst h
+      rcases List.mem_cons.1 hm with hm | hm
+      · cases hm
+      · exact cleanConst_itemOk hit hr i bs hm
+  | .ref n star :: r, cs, h, i, bs, hm => by
+    simp only [cleanConst, bind, Except.bind, pure, Except.pure] at h
+    cases hf : s.findSeq n with
+    | none => simp [hf, throw, throwThe, MonadExceptOf.throw] at h
+    | some e =>
+      simp only [hf] at h
+      cases hr : cleanConst s r with
+      | error e => simp [hr] at h
+      | ok rest =>
+        simp only [hr, Except.ok.injEq] at h
+        subst h
+        rcases List.mem_cons.1 hm with hm | hm
+        · injection hm with h1 _
+          subst h1
+          exact ⟨e, (findSeq_some hf).1, rfl, rfl⟩
+        · exact cleanConst_itemOk hit hr i bs hm
+  | .domains n star :: r, cs, h, i, bs, hm => by
+    simp only [cleanConst, bind, Except.bind, pure, Except.pure] at h
+    cases hf : s.findSeq n with
+    | none => simp [hf, throw, throwThe, MonadExceptOf.throw] at h
+    | some e =>
+      simp only [hf] at h
+      split at h
+      · simp [throw, throwThe, MonadExceptOf.throw] at h
+      · split at h
+        · cases h
+        · rename_i objs hobjs
+          cases hr : cleanConst s r with
+          | error e => simp [hr] at h
+          | ok rest =>
+            simp only [hr, Except.ok.injEq] at h
+            subst h
+            rcases List.mem_append.1 hm with hm | hm
+            · obtain ⟨x, hx, hfx⟩ := mapM_mem hobjs _ hm
+              split at hfx
+              · injection hfx with hfx
+                injection hfx with h1 _
+                subst h1
+                -- `x` is an item of a view of `e`
+                have hxe : ∃ y ∈ e.items, y.name = x.name ∧ y.len = x.len := by
+                  unfold itemsOfView at hx
+                  split at hx
+                  · simp only [List.mem_map, List.mem_reverse] at hx
+                    obtain ⟨y, hy, rfl⟩ := hx
+                    exact ⟨y, hy, rfl, rfl⟩
+                  · exact ⟨x, hx, rfl, rfl⟩
+                obtain ⟨y, hy, hn, hl⟩ := hxe
+                obtain ⟨e', he', h1, h2⟩ := hit e (findSeq_some hf).1 y hy
+                exact ⟨e', he', by rw [h1, hn], by rw [h2, hl]⟩
+              · simp [throw, throwThe, MonadExceptOf.throw] at hfx
+            · exact cleanConst_itemOk hit hr i bs hm
+
+/-- what a built item list refers to: entries of the table or the anonymous sequences created with it -/
+structure AccOk (l : List SeqE) (a0 : Nat) (items : List ItemRef) (newAnon : List SeqE) (anon : Nat) : Prop where
+  items : ∀ i ∈ items, ItemOk l i ∨ ∃ e ∈ newAnon, e.name = i.name ∧ e.len = i.len
+  anons : ∀ e ∈ newAnon, e.isSup = false ∧ e.const.length = e.len ∧ e.items = [] ∧
+            ∃ k, a0 ≤ k ∧ k < anon ∧ e.name = anonName k
+  nodup : (newAnon.map (·.name)).Nodup
+
+theorem AccOk.addAnon {l : List SeqE} {a0 : Nat} {items : List ItemRef} {newAnon : List SeqE} {anon : Nat}
+    (h : AccOk l a0 items newAnon anon) (ha : a0 ≤ anon) {len : Nat} {c : List Char} (hc : c.length = len)
+    (items' : List ItemRef) (hi : ∀ i ∈ items', i ∈ items ∨ i = (mkAnon anon len c).ref) :
+    AccOk l a0 items' (newAnon ++ [mkAnon anon len c]) (anon + 1) := by
+  refine ⟨?_, ?_, ?_⟩
+  · intro i hi'
+    rcases hi i hi' with hm | rfl
+    · rcases h.items i hm with h1 | ⟨e, he, h1, h2⟩
+      · exact Or.inl h1
+      · exact Or.inr ⟨e, List.mem_append_left _ he, h1, h2⟩
+    · exact Or.inr ⟨mkAnon anon len c, by simp, rfl, rfl⟩
+  · intro e he
+    rcases List.mem_append.1 he with he | he
+    · obtain ⟨h1, h2, h3, k, hk1, hk2, hk3⟩ := h.anons e he
+      exact ⟨h1, h2, h3, k, hk1, by omega, hk3⟩
+    · simp only [List.mem_singleton] at he
+      subst he
+      exact ⟨rfl, hc, rfl, anon, ha, by omega, rfl⟩
+  · simp only [List.map_append, List.map_cons, List.map_nil]
+    apply nodup_append_singleton h.nodup
+    intro hm
+    obtain ⟨e, he, hn⟩ := List.mem_map.1 hm
+    obtain ⟨_, _, _, k, _, hk2, hk3⟩ := h.anons e he
+    have : anonName k = anonName anon := by rw [← hk3, hn]; rfl
+    have := anonName_inj this
+    omega
+
+theorem buildStep_ok {l : List SeqE} {a0 : Nat} {acc acc' : Acc} {c : CItem}
+    (hc : ∀ i bs, c = .obj i bs → ItemOk l i)
+    (h : AccOk l a0 acc.items acc.newAnon acc.anon) (ha : a0 ≤ acc.anon) (hs : buildStep acc c = .ok acc') :
+    AccOk l a0 acc'.items acc'.newAnon acc'.anon := by
+  cases c with
+  | obj i bs =>
+    simp only [buildStep, Except.ok.injEq] at hs
+    subst hs
+    refine ⟨?_, h.anons, h.nodup⟩
+    intro j hj
+    rcases List.mem_append.1 hj with hj | hj
+    · exact h.items j hj
+    · simp only [List.mem_singleton] at hj
+      rw [hj]
+      exact Or.inl (hc i bs rfl)
+  | nuc parts =>
+    simp only [buildStep] at hs
+    split at hs
+    · rename_i len c hres
+      injection hs with hs
+      subst hs
+      exact h.addAnon ha (resolve_length hres) _ (fun i hi => by
+        rcases List.mem_append.1 hi with hi | hi
+        · exact Or.inl hi
+        · exact Or.inr (by simpa using hi))
+    · split at hs
+      · cases hs
+      · injection hs with hs
+        subst hs
+        exact h
+    · cases hs
+
+theorem buildFold_ok {l : List SeqE} {a0 : Nat} : ∀ {cs : List CItem} {acc acc' : Acc},
+    (∀ i bs, CItem.obj i bs ∈ cs → ItemOk l i) →
+    AccOk l a0 acc.items acc.newAnon acc.anon → a0 ≤ acc.anon → buildFold cs acc = .ok acc' →
+    AccOk l a0 acc'.items acc'.newAnon acc'.anon
+  | [], acc, acc', _, h, _, hs => by
+    simp only [buildFold, Except.ok.injEq] at hs
+    subst hs
+    exact h
+  | c :: r, acc, acc', hc, h, ha, hs => by
+    simp only [buildFold] at hs
+    cases h1 : buildStep acc c with
+    | error e => simp [h1] at hs
+    | ok acc1 =>
+      simp only [h1] at hs
+      have hok := buildStep_ok (fun i bs hcc => hc i bs (hcc ▸ List.mem_cons_self)) h ha h1
+      exact buildFold_ok (fun i bs hm => hc i bs (List.mem_cons_of_mem _ hm)) hok
+        (Nat.le_trans ha (buildStep_anon_le h1)) hs
+
+theorem mem_insertAt {α} {l : List α} {i : Nat} {x y : α} (h : y ∈ insertAt l i x) : y ∈ l ∨ y = x := by
+  unfold insertAt at h
+  rcases List.mem_append.1 h with h | h
+  · exact Or.inl (List.mem_of_mem_take h)
+  · rcases List.mem_cons.1 h with h | h
+    · exact Or.inr h
+    · exact Or.inl (List.mem_of_mem_drop h)
+
+theorem buildSuper_ok {l : List SeqE} {a : Nat} {cs : List CItem} {len : Option Nat} {b : Built}
+    (hc : ∀ i bs, CItem.obj i bs ∈ cs → ItemOk l i) (hs : buildSuper a cs len = .ok b) :
+    AccOk l a b.items b.newAnon b.anon := by
+  simp only [buildSuper, bind, Except.bind] at hs
+  cases hb : buildFold cs { anon := a } with
+  | error e => simp [hb] at hs
+  | ok acc =>
+    have h0 : AccOk l a ({ anon := a } : Acc).items ({ anon := a } : Acc).newAnon ({ anon := a } : Acc).anon :=
+      AccOk.mk (fun i hi => nomatch hi) (fun e he => nomatch he) List.nodup_nil
+    have hok := buildFold_ok hc h0 (Nat.le_refl _) hb
+    have hle : a ≤ acc.anon := buildFold_anon_le hb
+    simp only [hb] at hs
+    split at hs
+    · split at hs
+      · split at hs
+        · injection hs with hs; subst hs; exact hok
+        · cases hs
+      · injection hs with hs; subst hs; exact hok
+    · split at hs
+      · cases hs
+      · split at hs
+        · cases hs
+        · split at hs
+          · cases hs
+          · rename_i wl c hres
+            injection hs with hs
+            subst hs
+            exact hok.addAnon hle (resolve_length hres) _ (fun i hi => mem_insertAt hi)
+
+theorem findSeq_isSome_iff {s : St} {n : String} : (s.findSeq n).isSome = true ↔ ∃ e ∈ s.seqs, e.name = n := by
+  unfold St.findSeq
+  rw [List.find?_isSome]
+  simp
+
+def regStep (new : List SeqE) (s : St) (i : ItemRef) : St :=
+  if (s.findSeq i.name).isSome then s
+  else match new.find? (·.name == i.name) with
+    | some e => { s with seqs := s.seqs ++ [e] }
+    | none => s
+
+theorem registerAnon_eq_fold (s : St) (b : Built) : registerAnon s b = b.items.foldl (regStep b.newAnon) s := rfl
+
+theorem regFold_spec (new : List SeqE) : ∀ (its : List ItemRef) (s : St),
+    (∃ X, (its.foldl (regStep new) s).seqs = s.seqs ++ X ∧ ∀ e ∈ X, e ∈ new) ∧
+    (∀ i ∈ its, ((∃ e ∈ s.seqs, e.name = i.name) ∨ ∃ e ∈ new, e.name = i.name) →
+      ∃ e' ∈ (its.foldl (regStep new) s).seqs, e'.name = i.name) ∧
+    (its.foldl (regStep new) s).strands = s.strands
+  | [], s => ⟨⟨[], by simp, (fun e he => nomatch he)⟩, (fun i hi _ => nomatch hi), rfl⟩
+  | i :: r, s => by
+    simp only [List.foldl_cons]
+    by_cases hs : (s.findSeq i.name).isSome = true
+    · have hstep : regStep new s i = s := by simp [regStep, hs]
+      rw [hstep]
+      obtain ⟨⟨X, hX, hXn⟩, hnames, hstr⟩ := regFold_spec new r s
+      refine ⟨⟨X, hX, hXn⟩, ?_, hstr⟩
+      intro j hj hcase
+      rcases List.mem_cons.1 hj with rfl | hj
+      · obtain ⟨e, he, hn⟩ := findSeq_isSome_iff.1 hs
+        exact ⟨e, by rw [hX]; exact List.mem_append_left _ he, hn⟩
+      · exact hnames j hj hcase
+    · cases hf : new.find? (·.name == i.name) with
+      | none =>
+        have hstep : regStep new s i = s := by simp [regStep, hs, hf]
+        rw [hstep]
+        obtain ⟨⟨X, hX, hXn⟩, hnames, hstr⟩ := regFold_spec new r s
+        refine ⟨⟨X, hX, hXn⟩, ?_, hstr⟩
+        intro j hj hcase
+        rcases List.mem_cons.1 hj with rfl | hj
+        · rcases hcase with ⟨e, he, hn⟩ | ⟨e, he, hn⟩
+          · exact absurd (findSeq_isSome_iff.2 ⟨e, he, hn⟩) hs
+          · have := List.find?_eq_none.1 hf e he
+            simp [hn] at this
+        · exact hnames j hj hcase
+      | some e0 =>
+        have he0 : e0.name = i.name := by simpa using List.find?_some hf
+        have he0m : e0 ∈ new := List.mem_of_find?_eq_some hf
+        have hstep : regStep new s i = { s with seqs := s.seqs ++ [e0] } := by simp [regStep, hs, hf]
+        rw [hstep]
+        obtain ⟨⟨X, hX, hXn⟩, hnames, hstr⟩ := regFold_spec new r { s with seqs := s.seqs ++ [e0] }
+        refine ⟨⟨e0 :: X, by rw [hX]; simp, ?_⟩, ?_, hstr⟩
+        · intro e he
+          rcases List.mem_cons.1 he with rfl | he
+          · exact he0m
+          · exact hXn e he
+        · intro j hj hcase
+          rcases List.mem_cons.1 hj with rfl | hj
+          · exact ⟨e0, by rw [hX]; simp, he0⟩
+          · apply hnames j hj
+            rcases hcase with ⟨e, he, hn⟩ | h2
+            · exact Or.inl ⟨e, List.mem_append_left _ he, hn⟩
+            · exact Or.inr h2
+
+/-- registering the anonymous sequences of a built object: the table grows by some of them, every item of
+    the object is then an entry of the table with the length the item records -/
+theorem registerAnon_ok {s : St} {a : Nat} {b : Built} (hfresh : ∀ e ∈ s.seqs, ∀ k, a ≤ k → e.name ≠ anonName k)
+    (hb : AccOk s.seqs a b.items b.newAnon b.anon) :
+    (∃ X, (registerAnon s b).seqs = s.seqs ++ X ∧ ∀ e ∈ X, e ∈ b.newAnon) ∧
+    (∀ i ∈ b.items, ItemOk (registerAnon s b).seqs i) ∧ (registerAnon s b).strands = s.strands := by
+  rw [registerAnon_eq_fold]
+  obtain ⟨⟨X, hX, hXn⟩, hnames, hstr⟩ := regFold_spec b.newAnon b.items s
+  refine ⟨⟨X, hX, hXn⟩, ?_, hstr⟩
+  intro i hi
+  rcases hb.items i hi with hok | ⟨e, he, hn, hl⟩
+  · rw [hX]
+    exact hok.mono X
+  · obtain ⟨e', he', hn'⟩ := hnames i hi (Or.inr ⟨e, he, hn⟩)
+    refine ⟨e', he', hn', ?_⟩
+    rw [hX] at he'
+    obtain ⟨_, _, _, k, hk1, _, hk3⟩ := hb.anons e he
+    rcases List.mem_append.1 he' with he' | he'
+    · exfalso
+      exact hfresh e' he' k hk1 (by rw [hn', ← hn, hk3])
+    · have := eq_of_nodup_map hb.nodup (hXn e' he') he (by rw [hn', hn])
+      rw [this, hl]
+
+theorem AccOk.mono {l : List SeqE} {a0 : Nat} {items : List ItemRef} {newAnon : List SeqE} {anon : Nat}
+    (h : AccOk l a0 items newAnon anon) (x : List SeqE) : AccOk (l ++ x) a0 items newAnon anon :=
+  ⟨fun i hi => (h.items i hi).imp (fun hk => hk.mono x) id, h.anons, h.nodup⟩
+
+/-- a sequence statement defines a name that is not of the reserved form -/
+def stmtNameOk : Stmt → Prop
+  | .seq name _ _ => isAnon name = false
+  | _ => True
+
+theorem Inv.of_map {s s' : St} {a : Nat} (h : Inv s a) (f : SeqE → SeqE)
+    (hf : ∀ e, (f e).name = e.name ∧ (f e).len = e.len ∧ (f e).isSup = e.isSup ∧ (f e).const = e.const ∧
+               (f e).items = e.items)
+    (hseqs : s'.seqs = s.seqs.map f) (hstr : s'.strands = s.strands) : Inv s' a := by
+  refine ⟨?_, ?_, ?_, ?_⟩
+  · intro e he k hk
+    rw [hseqs] at he
+    obtain ⟨e0, he0, rfl⟩ := List.mem_map.1 he
+    rw [(hf e0).1]
+    exact h.fresh e0 he0 k hk
+  · intro e he hsup
+    rw [hseqs] at he
+    obtain ⟨e0, he0, rfl⟩ := List.mem_map.1 he
+    rw [(hf e0).2.2.2.1, (hf e0).2.1]
+    exact h.constLen e0 he0 (by rw [← (hf e0).2.2.1]; exact hsup)
+  · intro e he i hi
+    rw [hseqs] at he ⊢
+    obtain ⟨e0, he0, rfl⟩ := List.mem_map.1 he
+    rw [(hf e0).2.2.2.2] at hi
+    exact (h.seqItems e0 he0 i hi).map f (fun e => ⟨(hf e).1, (hf e).2.1⟩)
+  · intro t ht i hi
+    rw [hstr] at ht
+    rw [hseqs]
+    exact (h.strandItems t ht i hi).map f (fun e => ⟨(hf e).1, (hf e).2.1⟩)
+
+/-- the table after a super-sequence / strand was built and its anonymous sequences registered -/
+theorem Inv.after_build {s : St} {a : Nat} (h : Inv s a) {cs : List CItem} {items : List SrcItem}
+    (hc : cleanConst s items = .ok cs) {len : Option Nat} {b : Built} (hb : buildSuper a cs len = .ok b)
+    (s1 : St) (extra : List SeqE) (hs1 : s1.seqs = s.seqs ++ extra)
+    (hextra : ∀ e ∈ extra, (∀ k, e.name ≠ anonName k) ∧ e.isSup = true ∧ e.items = b.items) :
+    (∀ e ∈ (registerAnon s1 b).seqs, ∀ k, b.anon ≤ k → e.name ≠ anonName k) ∧
+    (∀ e ∈ (registerAnon s1 b).seqs, e.isSup = false → e.const.length = e.len) ∧
+    (∀ e ∈ (registerAnon s1 b).seqs, ∀ i ∈ e.items, ItemOk (registerAnon s1 b).seqs i) ∧
+    (∀ i ∈ b.items, ItemOk (registerAnon s1 b).seqs i) ∧
+    (∀ t ∈ s.strands, ∀ i ∈ t.items, ItemOk (registerAnon s1 b).seqs i) ∧
+    (registerAnon s1 b).strands = s1.strands := by
+  have hle : a ≤ b.anon := buildSuper_anon_le hb
+  have hacc : AccOk s1.seqs a b.items b.newAnon b.anon := by
+    rw [hs1]
+    exact (buildSuper_ok (cleanConst_itemOk h.seqItems hc) hb).mono extra
+  have hfresh1 : ∀ e ∈ s1.seqs, ∀ k, a ≤ k → e.name ≠ anonName k := by
+    intro e he k hk
+    rw [hs1] at he
+    rcases List.mem_append.1 he with he | he
+    · exact h.fresh e he k hk
+    · exact (hextra e he).1 k
+  obtain ⟨⟨X, hX, hXn⟩, hitems, hstr⟩ := registerAnon_ok hfresh1 hacc
+  have hmem : ∀ e ∈ (registerAnon s1 b).seqs, e ∈ s.seqs ∨ e ∈ extra ∨ e ∈ X := by
+    intro e he
+    rw [hX, hs1] at he
+    rcases List.mem_append.1 he with he | he
+    · rcases List.mem_append.1 he with he | he
+      · exact Or.inl he
+      · exact Or.inr (Or.inl he)
+    · exact Or.inr (Or.inr he)
+  have hmono : ∀ i, ItemOk s.seqs i → ItemOk (registerAnon s1 b).seqs i := by
+    intro i hi
+    rw [hX, hs1, List.append_assoc]
+    exact hi.mono _
+  refine ⟨?_, ?_, ?_, hitems, ?_, hstr⟩
+  · intro e he k hk
+    rcases hmem e he with he | he | he
+    · exact h.fresh e he k (Nat.le_trans hle hk)
+    · exact (hextra e he).1 k
+    · obtain ⟨_, _, _, k0, _, hk2, hk3⟩ := hacc.anons e (hXn e he)
+      rw [hk3]
+      intro hc
+      have := anonName_inj hc
+      omega
+  · intro e he hsup
+    rcases hmem e he with he | he | he
+    · exact h.constLen e he hsup
+    · rw [(hextra e he).2.1] at hsup; cases hsup
+    · exact (hacc.anons e (hXn e he)).2.1
+  · intro e he i hi
+    rcases hmem e he with he | he | he
+    · exact hmono i (h.seqItems e he i hi)
+    · rw [(hextra e he).2.2] at hi
+      exact hitems i hi
+    · rw [(hacc.anons e (hXn e he)).2.2.1] at hi
+      cases hi
+  · intro t ht i hi
+    exact hmono i (h.strandItems t ht i hi)
+
+theorem addStmt_inv {s s' : St} {a a' : Nat} (h : Inv s a) :
+    ∀ {st : Stmt}, stmtNameOk st → addStmt s a st = .ok (s', a') → Inv s' a'
+  | .seq name items len, hname, hs => by
+    have hname' : ∀ k, name ≠ anonName k := fun k => not_isAnon_ne hname k
+    unfold addStmt at hs
+    by_cases hd : (s.findSeq name).isSome = true
+    · simp [hd] at hs
+    · simp only [hd, Bool.false_eq_true, if_false] at hs
+      split at hs
+      · split at hs
+        · rename_i l c hres
+          injection hs with hs; injection hs with hs ha; subst hs ha
+          refine ⟨?_, ?_, ?_, ?_⟩
+          · intro e he k hk
+            rcases List.mem_append.1 he with he | he
+            · exact h.fresh e he k hk
+            · simp only [List.mem_singleton] at he
+              subst he
+              exact hname' k
+          · intro e he hsup
+            rcases List.mem_append.1 he with he | he
+            · exact h.constLen e he hsup
+            · simp only [List.mem_singleton] at he
+              subst he
+              exact resolve_length hres
+          · intro e he i hi
+            rcases List.mem_append.1 he with he | he
+            · exact (h.seqItems e he i hi).mono _
+            · simp only [List.mem_singleton] at he
+              subst he
+              cases hi
+          · intro t ht i hi
+            exact (h.strandItems t ht i hi).mono _
+        · cases hs
+      · cases hc : cleanConst s items with
+        | error e => simp [hc, bind, Except.bind] at hs
+        | ok cs =>
+          cases hb : buildSuper a cs len with
+          | error e => simp [hc, hb, bind, Except.bind] at hs
+          | ok b =>
+            simp only [hc, hb, bind, Except.bind, pure, Except.pure] at hs
+            injection hs with hs; injection hs with hs ha; subst hs ha
+            obtain ⟨h1, h2, h3, _, h5, h6⟩ := h.after_build hc hb
+              { s with seqs := s.seqs ++ [⟨name, true, false, b.len, [], b.items, b.bases, false⟩] }
+              [⟨name, true, false, b.len, [], b.items, b.bases, false⟩] rfl
+              (fun e he => by
+                simp only [List.mem_singleton] at he
+                subst he
+                exact ⟨hname', rfl, rfl⟩)
+            exact ⟨h1, h2, h3, fun t ht i hi => h5 t (by rw [h6] at ht; exact ht) i hi⟩
+  | .strand dummy name items len, _, hs => by
+    unfold addStmt at hs
+    by_cases hd : (s.findStrand name).isSome = true
+    · simp [hd, throw, throwThe, MonadExceptOf.throw, bind, Except.bind] at hs
+    · simp only [hd, Bool.false_eq_true, if_false] at hs
+      cases hc : cleanConst s items with
+      | error e => simp [hc, bind, Except.bind] at hs
+      | ok cs =>
+        cases hb : buildSuper a cs len with
+        | error e => simp [hc, hb, bind, Except.bind] at hs
+        | ok b =>
+          simp only [hc, hb, bind, Except.bind, pure, Except.pure] at hs
+          split at hs
+          · simp [throw, throwThe, MonadExceptOf.throw] at hs
+          · simp only [Except.ok.injEq, Prod.mk.injEq] at hs
+            obtain ⟨hs, ha⟩ := hs
+            subst hs ha
+            obtain ⟨h1, h2, h3, h4, h5, h6⟩ := h.after_build hc hb
+              { s with strands := s.strands ++ [⟨name, dummy, b.len, b.items, b.bases, false⟩] } [] (by simp)
+              (fun e he => nomatch he)
+            have hI2 : Inv (registerAnon { s with strands := s.strands ++ [⟨name, dummy, b.len, b.items, b.bases, false⟩] } b) b.anon := by
+              refine ⟨h1, h2, h3, ?_⟩
+              intro t ht i hi
+              rw [h6] at ht
+              rcases List.mem_append.1 ht with ht | ht
+              · exact h5 t ht i hi
+              · simp only [List.mem_singleton] at ht
+                subst ht
+                exact h4 i hi
+            refine hI2.of_map (fun e => if b.bases.any (·.name == e.name) then { e with inStrand := true } else e)
+              ?_ rfl rfl
+            intro e
+            split <;> exact ⟨rfl, rfl, rfl, rfl, rfl⟩
+  | .struct opt name strands domain text, _, hs => by
+    have hstr : ∀ t ∈ s.strands.map (fun (o : StrandE) => if strands.contains o.name then { o with inStructure := true } else o),
+        ∀ i ∈ t.items, ItemOk s.seqs i := by
+      intro t ht i hi
+      obtain ⟨t0, ht0, rfl⟩ := List.mem_map.1 ht
+      have : (if strands.contains t0.name then { t0 with inStructure := true } else t0).items = t0.items := by
+        split <;> rfl
+      rw [this] at hi
+      exact h.strandItems t0 ht0 i hi
+    unfold addStmt at hs
+    simp only [bind, Except.bind, pure, Except.pure] at hs
+    repeat' split at hs
+    all_goals first
+      | (cases hs; done)
+      | (simp [throw, throwThe, MonadExceptOf.throw] at hs; done)
+      | (simp only [Except.ok.injEq, Prod.mk.injEq] at hs
+         obtain ⟨hs, ha⟩ := hs
+         subst hs ha
+         exact ⟨h.fresh, h.constLen, h.seqItems, hstr⟩)
+  | .kinetic low high ins outs, _, hs => by
+    unfold addStmt at hs
+    simp only [bind, Except.bind, pure, Except.pure] at hs
+    repeat' split at hs
+    all_goals first
+      | (cases hs; done)
+      | (simp [throw, throwThe, MonadExceptOf.throw] at hs; done)
+      | (simp only [Except.ok.injEq, Prod.mk.injEq] at hs
+         obtain ⟨hs, ha⟩ := hs
+         subst hs ha
+         exact ⟨h.fresh, h.constLen, h.seqItems, h.strandItems⟩)
+
+theorem addStmts_inv {s' : St} {a' : Nat} : ∀ (stmts : List Stmt) (s : St) (a : Nat), Inv s a →
+    (∀ st ∈ stmts, stmtNameOk st) → addStmts s a stmts = .ok (s', a') → Inv s' a'
+  | [], s, a, h, _, hs => by
+    simp only [addStmts, Except.ok.injEq, Prod.mk.injEq] at hs
+    obtain ⟨rfl, rfl⟩ := hs
+    exact h
+  | st :: r, s, a, h, hn, hs => by
+    simp only [addStmts] at hs
+    cases h1 : addStmt s a st with
+    | error e => simp [h1] at hs
+    | ok res =>
+      obtain ⟨s1, a1⟩ := res
+      simp only [h1] at hs
+      exact addStmts_inv r s1 a1 (addStmt_inv h (hn st List.mem_cons_self) h1)
+        (fun x hx => hn x (List.mem_cons_of_mem _ hx)) hs
+
+theorem userNamesOk_stmt {src : Src} (hu : UserNamesOk src) : ∀ st ∈ src.stmts, stmtNameOk st := by
+  intro st hst
+  cases st with
+  | seq name items len =>
+    unfold UserNamesOk userNamesOk at hu
+    simp only [List.all_eq_true, Bool.not_eq_true'] at hu
+    apply hu
+    simp only [srcSeqNames, List.mem_append, List.mem_flatMap]
+    exact Or.inl ⟨_, hst, by simp [stmtSeqNames]⟩
+  | strand d name items len => trivial
+  | struct opt name strands domain text => trivial
+  | kinetic lo hi ins outs => trivial
+
+theorem load_inv {src : Src} (hu : UserNamesOk src) {n : Nat} {pfx : String} {a : Nat} {st : St} {a' : Nat}
+    (h : load src n pfx a = .ok (st, a')) : Inv st a' := by
+  unfold load at h
+  by_cases hn : (src.params.length != n) = true
+  · simp [hn, throw, throwThe, MonadExceptOf.throw, bind, Except.bind] at h
+  · simp only [hn, Bool.false_eq_true, if_false, bind, Except.bind, pure, Except.pure] at h
+    cases hs : addStmts { name := src.name, pfx := pfx, params := src.params } a src.stmts with
+    | error e => simp [hs] at h
+    | ok res =>
+      obtain ⟨s1, a1⟩ := res
+      simp only [hs] at h
+      cases hio : addIO s1 src.inputs src.outputs with
+      | error e => simp [hio] at h
+      | ok s2 =>
+        simp only [hio, Except.ok.injEq, Prod.mk.injEq] at h
+        obtain ⟨rfl, rfl⟩ := h
+        have h0 : Inv { name := src.name, pfx := pfx, params := src.params } a :=
+          ⟨(fun e he => nomatch he), (fun e he => nomatch he), (fun e he => nomatch he), (fun t ht => nomatch ht)⟩
+        have h1 := addStmts_inv src.stmts _ a h0 (userNamesOk_stmt hu) hs
+        obtain ⟨e1, e2, _, _⟩ := addIO_tables hio
+        refine ⟨?_, ?_, ?_, ?_⟩
+        · rw [e1]; exact h1.fresh
+        · rw [e1]; exact h1.constLen
+        · rw [e1]; exact h1.seqItems
+        · rw [e1, e2]; exact h1.strandItems
+
+theorem itemRaw_cases (p : String) (i : ItemRef) :
+    Emit.itemRaw p i = p ++ i.name ∨ Emit.itemRaw p i = p ++ i.name ++ "*" := by
+  unfold Emit.itemRaw fullName
+  cases i.rev
+  · left; simp
+  · right; rfl
+
+theorem raw_items_ok {s : St} {items : List ItemRef} (h : ∀ i ∈ items, ItemOk s.seqs i) :
+    ∀ raw ∈ (items.filter (!·.dummy)).map (Emit.itemRaw s.pfx),
+      ∃ e ∈ s.seqs, e.len ≠ 0 ∧ (raw = s.pfx ++ e.name ∨ raw = s.pfx ++ e.name ++ "*") := by
+  intro raw hr
+  obtain ⟨i, hi, rfl⟩ := List.mem_map.1 hr
+  obtain ⟨hi1, hi2⟩ := List.mem_filter.1 hi
+  obtain ⟨e, he, hn, hl⟩ := h i hi1
+  refine ⟨e, he, ?_, ?_⟩
+  · rw [hl]
+    simpa [ItemRef.dummy] using hi2
+  · rw [hn]
+    exact itemRaw_cases s.pfx i
+
+/-- nothing of length zero is emitted, and nothing emitted mentions an object of length zero -/
+theorem compStmts_no_zero {s : St} {a : Nat} (hI : Inv s a) (hN : NamesNodup s) :
+    (∀ name tmpl, Pil.Stmt.seq name tmpl ∈ Emit.compStmts s → tmpl ≠ []) ∧
+    (∀ e ∈ s.seqs, e.len = 0 → s.pfx ++ e.name ∉ seqDeclNames (Emit.compStmts s)) ∧
+    (∀ e ∈ s.seqs, e.len ≠ 0 → s.pfx ++ e.name ∈ seqDeclNames (Emit.compStmts s)) ∧
+    (∀ name items, Pil.Stmt.sup name items ∈ Emit.compStmts s → ∀ raw ∈ items,
+      ∃ e ∈ s.seqs, e.len ≠ 0 ∧ (raw = s.pfx ++ e.name ∨ raw = s.pfx ++ e.name ++ "*")) ∧
+    (∀ name d items, Pil.Stmt.strand name d items ∈ Emit.compStmts s → ∀ raw ∈ items,
+      ∃ e ∈ s.seqs, e.len ≠ 0 ∧ (raw = s.pfx ++ e.name ∨ raw = s.pfx ++ e.name ++ "*")) := by
+  refine ⟨?_, ?_, ?_, ?_, ?_⟩
+  · intro name tmpl hm
+    simp only [Emit.compStmts, List.mem_append, List.mem_map, List.mem_filter, St.baseSeqs, St.supSeqs] at hm
+    rcases hm with ((⟨e, ⟨⟨he, hsup⟩, hlen⟩, heq⟩ | ⟨e, _, heq⟩) | ⟨e, _, heq⟩) | ⟨e, _, heq⟩
+    · injection heq with _ h2
+      subst h2
+      have hc := hI.constLen e he (by simpa using hsup)
+      intro hnil
+      rw [hnil] at hc
+      simp at hlen
+      exact hlen hc.symm
+    · cases heq
+    · cases heq
+    · cases heq
+  · intro e he hlen hm
+    rw [seqDeclNames_compStmts] at hm
+    obtain ⟨e', he', hn⟩ := List.mem_map.1 hm
+    have hn' : e'.name = e.name := (String.append_right_inj s.pfx).1 hn
+    have he'm : e' ∈ s.seqs ∧ e'.len ≠ 0 := by
+      rcases List.mem_append.1 he' with h | h
+      · obtain ⟨h1, h2⟩ := List.mem_filter.1 h
+        exact ⟨h1, by simp at h2; exact h2.1⟩
+      · obtain ⟨h1, h2⟩ := List.mem_filter.1 h
+        exact ⟨h1, by simp at h2; exact h2.1⟩
+    have := eq_of_nodup_map hN.seqs he'm.1 he hn'
+    rw [this] at he'm
+    exact he'm.2 hlen
+  · intro e he hlen
+    rw [seqDeclNames_compStmts]
+    apply List.mem_map.2
+    refine ⟨e, ?_, rfl⟩
+    apply List.mem_append.2
+    cases hsup : e.isSup
+    · left; exact List.mem_filter.2 ⟨he, by simp [hlen, hsup]⟩
+    · right; exact List.mem_filter.2 ⟨he, by simp [hlen, hsup]⟩
+  · intro name items hm
+    simp only [Emit.compStmts, List.mem_append, List.mem_map, List.mem_filter, St.baseSeqs, St.supSeqs] at hm
+    rcases hm with ((⟨e, _, heq⟩ | ⟨e, ⟨⟨he, _⟩, _⟩, heq⟩) | ⟨e, _, heq⟩) | ⟨e, _, heq⟩
+    · cases heq
+    · injection heq with _ h2
+      subst h2
+      exact raw_items_ok (hI.seqItems e he)
+    · cases heq
+    · cases heq
+  · intro name d items hm
+    simp only [Emit.compStmts, List.mem_append, List.mem_map, List.mem_filter, St.baseSeqs, St.supSeqs] at hm
+    rcases hm with ((⟨e, _, heq⟩ | ⟨e, _, heq⟩) | ⟨e, he, heq⟩) | ⟨e, _, heq⟩
+    · cases heq
+    · cases heq
+    · injection heq with _ _ h3
+      subst h3
+      exact raw_items_ok (hI.strandItems e he)
+    · cases heq
+
+end emitted
+
 end Pepper.DenoteZero
